@@ -23,8 +23,27 @@ Translation conventions (the same the hand-written model follows, AGENT_GUIDE.md
     `if c { return a; }` -> `if c then a else <rest of the block>`; `for _ in 0..N { .. }` -> `Prim.iterate N (fun v => ..) v`
   * `TypeId::of::<A>() == TypeId::of::<B>()` is resolved by the registration of the body (one translation per monomorphic branch)
 Anything outside this subset raises `Untranslatable` (extract.py turns that into `die`, i.e. `broken[extraction]`).
+
+Families (CAM16, colour difference, blending: `FAMILIES` below) are emitted into their own generated files
+`Gen/Bodies<Family>.lean` (same namespace `Gen.Body`) and tied in `PaletteProofs/Tie_<Family>.lean`.  Additional conventions there:
+  * `match e { Enum::A => .., Enum::B(x) => .. }` over a registered enum (`ENUMS`: variants re-read from the `enum` definition) -> Lean `match`;
+    every variant exactly once, no wildcard; arms that are masks become `Bool` (`decide`)
+  * registered non-colour structs (`STRUCTS`: field list re-read from the `struct` definition) map to the structure of the hand model; a nested
+    Rust struct the model flattens (`DependentParameters.adapt: Adapt`) is rebuilt on access (`Prim.Adapt.mk p.adaptFL`) and projected on construction
+  * `prims=<profile>`: the per-type primitives `radians_to_degrees`, `degrees_to_radians`, `hypot`, `signum`, `min_max`, `core::f64::consts::PI`
+    take the reading of the model the family is compared with (`PROFILES`), e.g. `Cam16.toDegrees`, `x * Scalar.const Diff.R2D`
+  * `mask='prop'`: masks are `Prop`s also when bound to a variable or combined (`&`/`|` -> `∧`/`∨`), as the Diff/Cam16/Blend models write them
+  * `T::from_scalar(x)`, `V::from_scalar(x)` -> `x` (`FromScalar for f32/f64` is the identity); `clamp(v, lo, hi)` / `v.clamp(lo, hi)` -> `Scalar.clamp`
+  * `holes={"<rust expr>": name}`: a trait-dispatched sub-expression of a generic default method (`self.relative_luminance().luma`) becomes the
+    parameter `name`; the tie theorem composes it with the body that fills it
+  * `macro_args={..}`: a `macro_rules!` body is instantiated at the registered invocation (`$(..$component..)+` repetitions expanded) before parsing
+  * `colours=["C"]`: a type parameter standing for a colour (`C: ArrayCast<Array = [T; N]>`) is the list of its components (`List α`, as in Blend.lean);
+    `for (src, dst) in zip_colors(x, &mut y) { *dst = e; }` -> `y := Prim.zipWith (fun src dst => e) x y`, the loop of `blend_separable` over
+    `zip_input(..)` -> `Prim.zip4With` (the text of `zip_colors` / `zip_input` is pinned by digest: `pins` of the family); `x.f = e` on a local struct
+    variable rebinds `x` with the other fields unchanged; `structs={..}` renames a Rust struct to a registered one for one body (`PreAlpha` at a `V3` colour)
+  * `ptypes={name: type}`: parameters whose type is a bare type parameter bounded in the `where` clause (`F: FnMut(T, T) -> T`)
 """
-import re
+import re, hashlib
 
 class Untranslatable(Exception):
     pass
@@ -194,6 +213,9 @@ class Parser:
                 params.append((p, ty))
                 if not self.eat(","): break
             self.expect("|")
+            if self.at("->"):
+                self.i += 1; self.skip_type(("{",))
+                return ("closure", params, self.block())
             return ("closure", params, self.expr(0, no_struct))
         if k == "id" and v == "return":
             self.i += 1
@@ -248,7 +270,9 @@ class Parser:
             if self.next()[1] != "in": fail("for: expected `in`")
             it = self.expr(0, True)
             return ("for", p, it, self.block())
-        if k == "id" and v in ("match", "while", "loop", "unsafe"):
+        if k == "id" and v == "match":
+            return self.match_expr()
+        if k == "id" and v in ("while", "loop", "unsafe"):
             fail(f"`{v}` is outside the translated subset")
         if k == "id" or v == "<":
             p = self.path()
@@ -257,6 +281,16 @@ class Parser:
                 toks = self.balanced()
                 name = p[1][-1]
                 if name == "lazy_select": return self.lazy_select(toks)
+                if name == "strip_plus":          # `strip_plus!(+ a + b + c)` = `a + b + c` (macros/mod.rs)
+                    if not toks or toks[0][1] != "+": fail("strip_plus!: expected a leading `+`")
+                    q = Parser(toks[1:]); e = q.expr()
+                    if q.peek()[0] != "eof": fail("strip_plus!: trailing tokens")
+                    return e
+                if name == "matches":             # `matches!(e, A::X | A::Y)`
+                    q = Parser(toks); e = q.expr(); q.expect(","); alts = [q.match_pattern()]
+                    while q.eat("|"): alts.append(q.match_pattern())
+                    if q.peek()[0] != "eof": fail("matches!: trailing tokens")
+                    return ("matches", e, alts)
                 fail(f"macro {name}! is outside the translated subset")
             last = p[1][-1]
             if self.at("{") and not no_struct and (last[:1].isupper() or last == "Self"):
@@ -290,6 +324,41 @@ class Parser:
             q.eat(",")
         if not arms or other is None: fail("lazy_select!: needs `if` arms and an `else` arm")
         return ("lazy_select", arms, other)
+
+    def match_pattern(self):
+        """`A::B`, `A::B(x, y)`, `_` or a plain binding -> ("penum", [segments], [sub-patterns] | None)"""
+        if self.peek()[0] == "id" and self.peek()[1] == "_":
+            self.i += 1; return ("pwild",)
+        self.eat("&")
+        segs = [self.next()[1]]
+        while self.at("::"):
+            self.i += 1
+            if self.at("<"): self.skip_angles()
+            else: segs.append(self.next()[1])
+        subs = None
+        if self.eat("("):
+            subs = []
+            while not self.at(")"):
+                subs.append(self.pattern())
+                if not self.eat(","): break
+            self.expect(")")
+        return ("penum", segs, subs)
+
+    def match_expr(self):
+        self.expect("match")
+        scrut = self.expr(0, True)
+        self.expect("{")
+        arms = []
+        while not self.at("}"):
+            pats = [self.match_pattern()]
+            while self.eat("|"): pats.append(self.match_pattern())
+            if self.at("if"): fail("match guards are outside the translated subset")
+            self.expect("=>")
+            body = self.expr()
+            arms.append((pats, body))
+            if not self.eat(",") and not self.at("}") and body[0] != "block": fail("match: expected `,` between arms")
+        self.expect("}")
+        return ("match", scrut, arms)
 
     def if_expr(self):
         self.expect("if")
@@ -428,7 +497,11 @@ def find_fn(src, where, fn):
             i += 1
         params = scope[start:i - 1]
         j = scope.find("{", i)
-        k = scope.find(";", i)
+        k, dep = -1, 0                              # first `;` outside brackets (`-> [U; 3]` is not the end of a declaration)
+        for q in range(i, j if j >= 0 else len(scope)):
+            if scope[q] in "[(": dep += 1
+            elif scope[q] in "])": dep -= 1
+            elif scope[q] == ";" and dep == 0: k = q; break
         if j < 0 or 0 <= k < j: continue            # a declaration without body (trait method)
         head = scope[i:j]
         rm = re.match(r"\s*->\s*(.*?)\s*(?:\bwhere\b.*)?$", head, re.S)
@@ -475,7 +548,10 @@ def lean_ty(ty):
     if ty == "M3": return "M3 α"
     if ty == "unit": return "Unit"
     if ty[0] == "V3": return "V3 α"
-    if ty[0] == "S": return f"{STRUCTS[ty[1]][0]} α"
+    if ty[0] == "S": return struct_info(ty[1])["lean"] + (" α" if struct_info(ty[1]).get("param", True) else "")
+    if ty[0] == "iter": fail("an iterator value cannot be bound")
+    if ty[0] == "E": return ENUMS[ty[1]]["lean"] + (" α" if ENUMS[ty[1]].get("param", True) else "")
+    if ty == "C": return "List α"
     if ty[0] == "tup": return "(" + " × ".join(lean_ty(t) for t in ty[1]) + ")"
     if ty[0] == "fn": return "(" + " → ".join(lean_ty(t) for t in ty[1] + [ty[2]]) + ")"
     fail(f"no Lean type for {ty!r}")
@@ -504,12 +580,118 @@ STRUCTS = {
     "ChromaValues": ("Ok.Cs", [("zero", "zero"), ("mid", "mid"), ("max", "max")]),
 }
 
+# Structs of the new families.  fields: (rust field, type, Lean term of the field given the struct value `{}`); mk: Lean term building the
+# model's structure from the (lowered) Rust fields; file: where the `struct` definition is re-read from (field names must be these).
+V3N = ("V3", None)
+STRUCTS2 = {
+    # cam16/math.rs: the model `Cam16.Dep` flattens `adapt: Adapt { f_l }` and `unadapt: Unadapt { constant, exponent }`
+    "DependentParameters": dict(lean="Cam16.Dep", file="cam16/math.rs", fields=[
+        ("d_rgb", V3N, "{}.dRgb"), ("d_rgb_inv", V3N, "{}.dRgbInv"), ("n", "T", "{}.n"), ("n_bb", "T", "{}.nBb"), ("n_c", "T", "{}.nC"),
+        ("n_cb", "T", "{}.nCb"), ("a_w", "T", "{}.aW"), ("c", "T", "{}.c"), ("z", "T", "{}.z"), ("f_l_4", "T", "{}.fL4"),
+        ("adapt", ("S", "Adapt"), "(Prim.Adapt.mk {}.adaptFL)"), ("unadapt", ("S", "Unadapt"), "(Prim.Unadapt.mk {}.unadaptConstant {}.unadaptExponent)")],
+        mk="(Cam16.Dep.mk {d_rgb} {d_rgb_inv} {n} {n_bb} {n_c} {n_cb} {a_w} {c} {z} {f_l_4} {adapt}.fL {unadapt}.constant {unadapt}.exponent)"),
+    "Adapt": dict(lean="Prim.Adapt", file="cam16/math.rs", fields=[("f_l", "T", "{}.fL")], mk="(Prim.Adapt.mk {f_l})"),
+    "Unadapt": dict(lean="Prim.Unadapt", file="cam16/math.rs", fields=[("constant", "T", "{}.constant"), ("exponent", "T", "{}.exponent")],
+                    mk="(Prim.Unadapt.mk {constant} {exponent})"),
+    # cam16/parameters.rs `Parameters<WpParam, T>` at `WpParam = Xyz<Any, T>` (what `prepare_parameters` receives)
+    "Parameters": dict(lean="Cam16.Parameters", file="cam16/parameters.rs", fields=[
+        ("white_point", ("V3", "Xyz"), "{}.whitePoint"), ("adapting_luminance", "T", "{}.adaptingLuminance"),
+        ("background_luminance", "T", "{}.backgroundLuminance"), ("surround", ("E", "Surround"), "{}.surround"),
+        ("discounting", ("E", "Discounting"), "{}.discounting")],
+        mk="(Cam16.Parameters.mk {white_point} {adapting_luminance} {background_luminance} {surround} {discounting})"),
+    # cam16/full.rs `Cam16<T>`
+    "Cam16": dict(lean="Cam16.Full", file="cam16/full.rs", fields=[
+        ("lightness", "T", "{}.lightness"), ("chroma", "T", "{}.chroma"), ("hue", "T", "{}.hue"), ("brightness", "T", "{}.brightness"),
+        ("colorfulness", "T", "{}.colorfulness"), ("saturation", "T", "{}.saturation")],
+        mk="(Cam16.Full.mk {lightness} {chroma} {hue} {brightness} {colorfulness} {saturation})"),
+    # color_difference.rs
+    "LabColorDiff": dict(lean="Diff.LabColorDiff", file="color_difference.rs", fields=[
+        ("l", "T", "{}.l"), ("a", "T", "{}.a"), ("b", "T", "{}.b"), ("chroma", "T", "{}.chroma")],
+        mk="(Diff.LabColorDiff.mk {l} {a} {b} {chroma})"),
+    # blend/blend.rs `BlendInput<C>`, blend/pre_alpha.rs `PreAlpha<C>`, alpha/alpha.rs `Alpha<C, T>`: a generic colour `C` is the list of
+    # its components ('C'), `PreAlpha`/`Alpha` are `Blend.WithAlpha` = (components, alpha)
+    "BlendInput": dict(lean="Blend.BlendInput", file="blend/blend.rs", fields=[
+        ("color", "C", "{}.color"), ("color_pre", "C", "{}.colorPre"), ("alpha", "T", "{}.alpha")],
+        mk="(Blend.BlendInput.mk {color} {color_pre} {alpha})"),
+    "PreAlpha": dict(lean="Blend.WithAlpha", file="blend/pre_alpha.rs", fields=[("color", "C", "{}.1"), ("alpha", "T", "{}.2")],
+                     mk="(({color}, {alpha}) : Blend.WithAlpha α)"),
+    "Alpha": dict(lean="Blend.WithAlpha", file="alpha/alpha.rs", fields=[("color", "C", "{}.1"), ("alpha", "T", "{}.2")],
+                  mk="(({color}, {alpha}) : Blend.WithAlpha α)"),
+}
+STRUCTS2.update({
+    # blend/equations.rs: `Equations { color_equation, alpha_equation, color_parameters: Parameters, alpha_parameters: Parameters }`; the model
+    # `Blend.Equations` stores the four parameters flat
+    "Equations": dict(lean="Blend.Equations", param=False, file="blend/equations.rs", fields=[
+        ("color_equation", ("E", "Equation"), "{}.colorEquation"), ("alpha_equation", ("E", "Equation"), "{}.alphaEquation"),
+        ("color_parameters", ("S", "EqParameters"), "(Prim.ParamPair.mk {}.colorSource {}.colorDestination)"),
+        ("alpha_parameters", ("S", "EqParameters"), "(Prim.ParamPair.mk {}.alphaSource {}.alphaDestination)")],
+        mk="(Blend.Equations.mk {color_equation} {alpha_equation} {color_parameters}.source {color_parameters}.destination {alpha_parameters}.source {alpha_parameters}.destination)"),
+    "EqParameters": dict(lean="Prim.ParamPair Blend.Parameter", param=False, rust="Parameters", file="blend/equations.rs", fields=[
+        ("source", ("E", "Parameter"), "{}.source"), ("destination", ("E", "Parameter"), "{}.destination")],
+        mk="(Prim.ParamPair.mk {source} {destination})"),
+    # `PreAlpha<Self>` inside `impl_premultiply!` instantiated at a three-component colour: (colour, alpha)
+    "PreAlpha3": dict(lean="Prim.PreAlpha3", rust="PreAlpha", file="blend/pre_alpha.rs", fields=[("color", V3N, "{}.1"), ("alpha", "T", "{}.2")],
+                      mk="(({color}, {alpha}) : Prim.PreAlpha3 α)"),
+})
+STRUCT_ALIASES = {"BakedParameters": "DependentParameters"}     # `BakedParameters { inner: DependentParameters, .. }`: `.inner` is read as the identity
+
+def struct_info(name):
+    if name in STRUCTS2: return STRUCTS2[name]
+    lean, fs = STRUCTS[name]
+    return dict(lean=lean, fields=[(rf, "T", "{}." + lf) for rf, lf in fs], mk="(" + lean + ".mk " + " ".join("{" + rf + "}" for rf, _ in fs) + ")")
+
+def is_struct(name): return name in STRUCTS or name in STRUCTS2
+
+# Enums: Rust enum -> Lean inductive of the model; variants: rust name -> (lean constructor, [argument types]); re-read from the `enum` definition
+ENUMS = {
+    "Surround": dict(lean="Cam16.Surround", file="cam16/parameters.rs",
+                     variants={"Dark": ("dark", []), "Dim": ("dim", []), "Average": ("average", []), "Percent": ("percent", ["T"])}),
+    "Discounting": dict(lean="Cam16.Discounting", file="cam16/parameters.rs", variants={"Auto": ("auto", []), "Custom": ("custom", ["T"])}),
+    "LuminanceType": dict(lean="Cam16.Lum", file="cam16/math/luminance.rs", variants={"Lightness": ("lightness", ["T"]), "Brightness": ("brightness", ["T"])}),
+    "ChromaticityType": dict(lean="Cam16.Chr", file="cam16/math/chromaticity.rs",
+                             variants={"Chroma": ("chroma", ["T"]), "Colorfulness": ("colorfulness", ["T"]), "Saturation": ("saturation", ["T"])}),
+    "Equation": dict(lean="Blend.Equation", file="blend/equations.rs", param=False,
+                     variants={"Add": ("add", []), "Subtract": ("subtract", []), "ReverseSubtract": ("reverseSubtract", []), "Min": ("min", []), "Max": ("max", [])}),
+    "Parameter": dict(lean="Blend.Parameter", file="blend/equations.rs", param=False,
+                      variants={"One": ("one", []), "Zero": ("zero", []), "SourceColor": ("sourceColor", []), "OneMinusSourceColor": ("oneMinusSourceColor", []),
+                                "DestinationColor": ("destinationColor", []), "OneMinusDestinationColor": ("oneMinusDestinationColor", []),
+                                "SourceAlpha": ("sourceAlpha", []), "OneMinusSourceAlpha": ("oneMinusSourceAlpha", []),
+                                "DestinationAlpha": ("destinationAlpha", []), "OneMinusDestinationAlpha": ("oneMinusDestinationAlpha", [])}),
+    "ParamOut": dict(lean="Blend.ParamOut", file="blend/equations.rs",
+                     variants={"Color": ("color", [("S", "PreAlpha")]), "Constant": ("constant", ["T"])}),
+}
+
+def enum_variants(src, name):
+    """[(variant, arity)] of `enum <name><..> { .. }` in declaration order"""
+    m = re.search(r"\benum\s+" + name + r"\b[^{;(]*\{", src)
+    if not m: fail(f"enum {name} not found")
+    body = src[m.end() - 1:match_brace(src, m.end() - 1)][1:-1]
+    body = re.sub(r"#\[[^\]]*\]", "", body)
+    out = []
+    for part in split_top(body):
+        part = part.strip()
+        if not part: continue
+        mm = re.fullmatch(r"(\w+)\s*(?:\((.*)\))?", part, re.S)
+        if not mm: fail(f"enum {name}: variant {part!r}")
+        out.append((mm.group(1), len(split_top(mm.group(2))) if mm.group(2) else 0))
+    return out
+
+# Readings of the per-type primitives that differ between the models (see the headers of Color/Cam16.lean and Diff.lean: neither uses
+# `class Angle`).  A value is the Lean function name, or a template over `{0}`, `{1}`.
+PROFILES = {
+    None: {},
+    "cam16": {"radians_to_degrees": "(Cam16.toDegrees {0})", "degrees_to_radians": "(Cam16.toRadians {0})", "hypot": "(Cam16.hypot {0} {1})",
+              "signum": "(Cam16.signum {0})", "kPI": "Cam16.PI"},
+    "diff": {"radians_to_degrees": "({0} * (Scalar.const Diff.R2D : α))", "degrees_to_radians": "({0} * (Scalar.const Diff.D2R : α))",
+             "hypot": "(Diff.hypot {0} {1})", "min_max": "(Diff.minMax {0} {1})", "kPI": "Diff.PI"},
+}
+
 # scalar primitives: trait methods of `num.rs`/`angle.rs` implemented for f32/f64 by the standard library (class fields of Scalar / Angle)
 PRIM1 = {"sqrt": "Scalar.sqrt", "cbrt": "Scalar.cbrt", "abs": "Scalar.abs", "sin": "Scalar.sin", "cos": "Scalar.cos", "floor": "Scalar.floor",
          "ceil": "Scalar.ceil", "round": "Scalar.round", "exp": "Scalar.exp", "ln": "Scalar.ln", "recip": "Prim.recip",
          "degrees_to_radians": "Angle.degToRad", "radians_to_degrees": "Angle.radToDeg", "is_valid_divisor": "Scalar.isValidDivisor"}
 PRIM2 = {"max": "Scalar.max", "min": "Scalar.min", "powf": "Scalar.powf", "atan2": "Scalar.atan2", "hypot": "Angle.hypot"}
-PRIM3 = {"mul_add": "Scalar.mulAdd", "mul_sub": "Scalar.mulSub"}
+PRIM3 = {"mul_add": "Scalar.mulAdd", "mul_sub": "Scalar.mulSub", "clamp": "Scalar.clamp"}
 ANGLE_PRIMS = {"Angle.degToRad", "Angle.radToDeg", "Angle.hypot", "Angle.pi"}
 IDENTITY_METHODS = {"clone", "with_white_point", "is_true", "into_inner", "into_raw_degrees", "reinterpret_as", "borrow", "to_owned"}
 CMP_METHODS = {"gt": ("<", True), "lt": ("<", False), "gt_eq": ("≤", True), "lt_eq": ("≤", False)}
@@ -524,12 +706,19 @@ class Ctx:
         self.fns = {}                     # rust callee key -> dict(lean=.., params=[ty], ret=ty, extra=[codes], angle=bool)
         self.methods = {}                 # (struct name, method) -> same kind of dict, receiver is the first parameter
         self._fields = {}
+        self.macro_structs = {}           # colour struct defined by a macro invocation -> (file, macro, invocation regex with groups = its fields)
 
     def resolve(self, name):
         return self.aliases.get(name, name)
 
     def fields(self, name):
         name = self.resolve(name)
+        if name not in self._fields and name in self.macro_structs:
+            f, rx, order, guard = self.macro_structs[name]
+            m = re.search(rx, self.read_src(f))
+            if not m: fail(f"macro-defined struct {name}: invocation /{rx}/ not found in {f}")
+            if not re.search(guard, self.read_src(f)): fail(f"macro-defined struct {name}: the struct definition inside the macro changed shape (/{guard}/)")
+            self._fields[name] = [m.group(g) if isinstance(g, int) else g for g in order]
         if name not in self._fields:
             if name not in self.type_files: fail(f"unknown colour struct {name}")
             self._fields[name] = [f for f, _ in struct_fields(self.read_src(self.type_files[name][0]), name)]
@@ -546,8 +735,13 @@ class Ctx:
         return ps
 
 class Lower:
-    def __init__(self, ctx, self_ty=None, kmode="sci", consts=None, typeid=None, wp=None, subst=None):
+    def __init__(self, ctx, self_ty=None, kmode="sci", consts=None, typeid=None, wp=None, subst=None, prims=None, mask="bool", holes=None,
+                 scalars=()):
         self.ctx = ctx
+        self.prof = PROFILES[prims]       # readings of the per-type primitives (PROFILES)
+        self.mask = mask                  # 'bool': a stored/combined mask is a Bool (C01/C02 models) | 'prop': it stays a Prop
+        self.holes = holes or []          # [(AST of a Rust expression, Val it is replaced with)]
+        self.scalar_names = {"T", "Self::Scalar", "C::Scalar", "T::Scalar"} | set(scalars)   # type paths whose `::from_f64`, `::zero`.. are the scalar's
         self.self_ty = self_ty            # name the path `Self` denotes
         self.kmode = kmode                # 'sci' | 'const'
         self.consts = consts or {}        # module-level numeric constants: name -> literal text
@@ -568,7 +762,7 @@ class Lower:
     def sci(self, lit):
         lit = re.sub(r"_?(f32|f64)$", "", lit).replace("_", "")
         if re.fullmatch(r"\d+", lit): lit += ".0"
-        if not re.fullmatch(r"\d+\.\d+|\d+(\.\d+)?[eE]-?\d+", lit): fail(f"numeric literal {lit!r}")
+        if not re.fullmatch(r"\d+\.\d+|\d+(\.\d+)?[eE][-+]?\d+", lit): fail(f"numeric literal {lit!r}")
         return lit
 
     def as_bool(self, v):
@@ -592,6 +786,7 @@ class Lower:
         if e[0] == "binary" and e[1] in "+-*/": return f"({self.k_expr(e[2])} {e[1]} {self.k_expr(e[3])})"
         if e[0] == "path":
             key = "::".join(e[1])
+            if key == "core::f64::consts::PI" and self.prof.get("kPI"): return self.prof["kPI"]
             if key in self.subst: return f"({self.sci(self.subst[key])} : K)"
             if len(e[1]) == 1 and e[1][0] in self.consts: return f"({self.sci(self.consts[e[1][0]])} : K)"
         fail(f"not a constant expression: {e!r}")
@@ -599,7 +794,7 @@ class Lower:
     def from_f64(self, e):
         if e[0] == "path" and "::".join(e[1]) in self.subst:
             e = ("num", self.subst["::".join(e[1])])
-        if e[0] == "path" and e[1] == ["core", "f64", "consts", "PI"]:
+        if e[0] == "path" and e[1] == ["core", "f64", "consts", "PI"] and not self.prof.get("kPI"):
             self.uses_angle = True
             return Val("Angle.pi", "T")
         if self.kmode == "sci":
@@ -610,6 +805,10 @@ class Lower:
     # ---- expressions
     def expr(self, e, env):
         k = e[0]
+        for h, v in self.holes:
+            if e == h: return v
+        if k == "match": return self.match_value(e, env)
+        if k == "matches": return self.matches_value(e, env)
         if k == "num":
             return Val(f"({self.sci(e[1])} : α)", "T")      # a bare float literal (macro bodies instantiated at f32/f64)
         if k == "path": return self.path(e, env)
@@ -654,7 +853,15 @@ class Lower:
             if n in env: return env[n]
             if n == "PhantomData": return Val("_", "phantom")
             if n in self.consts: fail(f"module constant {n} used outside T::from_f64")
+            if n in self.ctx.fns and "extra" in self.ctx.fns[n] and not self.ctx.fns[n]["extra"]:      # a translated fn passed as a value
+                d = self.ctx.fns[n]
+                return Val(d["lean"], ("fn", list(d["params"]), d["ret"]))
             fail(f"unbound name {n!r}")
+        if segs[-1] == "PhantomData": return Val("_", "phantom")
+        if len(segs) == 2 and segs[1] == "from_scalar" and segs[0] in self.scalar_names:
+            return Val("(fun (x : α) => x)", ("fn", ["T"], "T"))       # `FromScalar::from_scalar` for f32/f64: identity
+        if segs[0] == "MinMax" and len(segs) == 2 and segs[1] in ("min", "max"):
+            return Val(PRIM2[segs[1]], ("fn", ["T", "T"], "T"))
         fail(f"path {'::'.join(segs)} used as a value")
 
     def unary(self, e, env):
@@ -683,6 +890,10 @@ class Lower:
                 return Val(f"(Prim.v3{ {'+':'Add','-':'Sub','*':'Mul','/':'Div'}[op] } {a.code} {b.code})", a.ty)
             if a.ty[0] == "V3" and b.ty == "T":          # colour (op) scalar: every component with the same scalar
                 return Val(f"(Prim.v3{ {'+':'Add','-':'Sub','*':'Mul','/':'Div'}[op] }S {a.code} {b.code})", a.ty)
+            if a.ty == "C" and b.ty == "C" and op == "*":     # generic colour `C: Mul<Output = C>` (impl_color_mul!): component-wise
+                return Val(f"(Blend.mulLists {a.code} {b.code})", "C")
+            if a.ty == "C" and b.ty == "T" and op == "*":     # `C: Mul<T, Output = C>`: every component with the same scalar
+                return Val(f"(List.map (fun x => x * {b.code}) {a.code})", "C")
             fail(f"`{op}` on {a.ty!r} and {b.ty!r}")
         if op in CMP_OPS:
             rel, flip = CMP_OPS[op]
@@ -690,6 +901,8 @@ class Lower:
             return Val(f"({y} {rel} {x})" if flip else f"({x} {rel} {y})", "P")
         if op == "==": return Val(f"(Scalar.eqv {self.scalar(a)} {self.scalar(b)})", "P")
         if op == "!=": return Val(f"(¬ Scalar.eqv {self.scalar(a)} {self.scalar(b)})", "P")
+        if self.mask == "prop" and a.ty == "P" and b.ty == "P" and op in ("|", "||", "&", "&&"):
+            return Val(f"({a.code} {'∨' if op[0] == '|' else '∧'} {b.code})", "P")
         if op in ("|", "||"): return Val(f"({self.as_bool(a)} || {self.as_bool(b)})", "B")
         if op in ("&", "&&"): return Val(f"({self.as_bool(a)} && {self.as_bool(b)})", "B")
         fail(f"binary {op}")
@@ -703,20 +916,30 @@ class Lower:
             if f not in fs: fail(f"{r.ty[1]} has no field {f}")
             return Val(f"{r.code}.c{fs.index(f)}", "T")
         if r.ty != "T" and r.ty[0] == "S":
-            for rf, lf in STRUCTS[r.ty[1]][1]:
-                if rf == f: return Val(f"{r.code}.{lf}", "T")
+            if f == "inner" and r.ty[1] == "DependentParameters": return r      # `BakedParameters.inner`
+            for rf, fty, tmpl in struct_info(r.ty[1])["fields"]:
+                if rf == f:
+                    if tmpl.count("{}") > 1 and not re.fullmatch(r"[\w.']+", r.code): fail(f"field .{f} of a computed {r.ty[1]}")
+                    return Val(tmpl.replace("{}", r.code), fty)
             fail(f"{r.ty[1]} has no field {f}")
         fail(f"field .{f} of {r.ty!r}")
 
     def struct_lit(self, e, env):
         name = e[1][1][-1]
         if name == "Self": name = self.self_ty
+        name = STRUCT_RENAME.get(name, name)
         if e[3] is not None: fail("struct update syntax `..base` is outside the translated subset")
         given = {f: self.expr(x, env) for f, x in e[2]}
-        if name in STRUCTS:
-            lean, fs = STRUCTS[name]
-            if sorted(given) != sorted(rf for rf, _ in fs): fail(f"{name} literal: fields {sorted(given)}")
-            return Val(f"({lean}.mk " + " ".join(self.scalar(given[rf]) for rf, _ in fs) + ")", ("S", name))
+        if is_struct(name):
+            info = struct_info(name)
+            if sorted(given) != sorted(rf for rf, _, _ in info["fields"]): fail(f"{name} literal: fields {sorted(given)}")
+            args = {}
+            for rf, fty, _ in info["fields"]:
+                g = given[rf]
+                ok = g.ty == fty or (g.ty != "T" and fty != "T" and g.ty[0] == "V3" and fty[0] == "V3")
+                if not ok: fail(f"{name} literal: field {rf} has type {g.ty!r}, expected {fty!r}")
+                args[rf] = g.code
+            return Val(info["mk"].format(**args), ("S", name))
         name = self.ctx.resolve(name)
         fs = self.ctx.fields(name)
         extra = [f for f in given if f not in fs]
@@ -753,11 +976,12 @@ class Lower:
             fail(f"{what}: trait-dispatched call whose target type is not the registered one (/{d['hint']}/, annotation {self.hint!r})")
         if len(args) != len(d["params"]): fail(f"{what}: {len(args)} arguments, {len(d['params'])} expected")
         for a, t in zip(args, d["params"]):
-            ok = a.ty == t or (a.ty != "T" and t != "T" and a.ty[0] == "V3" and t[0] == "V3")
+            ok = a.ty == t or (a.ty not in ("T", "B", "P", "C") and t not in ("T", "B", "P", "C") and a.ty[0] == "V3" and t[0] == "V3") \
+                 or (a.ty == "P" and t == "B")
             if not ok: fail(f"{what}: argument type {a.ty!r}, expected {t!r}")
         if d.get("angle"): self.uses_angle = True
         if d.get("viaf64"): self.uses_viaf64 = True
-        return Val("(" + " ".join([d["lean"]] + d.get("extra", []) + [a.code for a in args]) + ")", d["ret"])
+        return Val("(" + " ".join([d["lean"]] + d.get("extra", []) + [(self.as_bool(a) if t == "B" else a.code) for a, t in zip(args, d["params"])]) + ")", d["ret"])
 
     def call(self, e, env):
         f, xs = e[1], e[2]
@@ -773,11 +997,16 @@ class Lower:
             a = self.args(xs, env)
             if [x.ty for x in a] != fv.ty[1]: fail(f"closure {segs[0]}: argument types")
             return Val("(" + " ".join([fv.code] + [x.code for x in a]) + ")", fv.ty[2])
-        if key == "T::from_f64":
+        sprefix = "::".join(segs[:-1])
+        if sprefix in self.scalar_names and segs[-1] == "from_f64":
             if len(xs) != 1: fail("T::from_f64 arity")
             return self.from_f64(xs[0])
-        if key in ("T::zero", "T::min_intensity") and not xs: return Val("(0.0 : α)", "T")
-        if key in ("T::one", "T::max_intensity") and not xs: return Val("(1.0 : α)", "T")
+        if sprefix in self.scalar_names and segs[-1] in ("zero", "min_intensity") and not xs: return Val("(0.0 : α)", "T")
+        if sprefix in self.scalar_names and segs[-1] in ("one", "max_intensity") and not xs: return Val("(1.0 : α)", "T")
+        if sprefix in self.scalar_names and segs[-1] == "from_scalar" and len(xs) == 1:      # `FromScalar for f32/f64`: identity
+            return Val(self.scalar(self.expr(xs[0], env), " in from_scalar"), "T")
+        if key == "clamp" and len(xs) == 3 and "clamp" not in self.ctx.fns:                  # crate-level `clamp(v, lo, hi)` = `v.clamp(lo, hi)`
+            return self.prim("clamp", self.args(xs, env))
         if key == "TypeId::of" and not xs:
             return Val("_", ("typeid", re.sub(r"\s+", "", gens[-1]) if gens else "?"))
         if key == "Wp::get_xyz" and not xs:
@@ -785,7 +1014,8 @@ class Lower:
             return Val(self.wp, ("V3", "Xyz"))
         if key == "PhantomData": return Val("_", "phantom")
         # UFCS forms of the scalar primitives: `T::max(a, b)`, `Round::floor(x)`, `T::cbrt(x)`
-        if len(segs) == 2 and segs[0] in ("T", "Round", "Self") and (segs[1] in PRIM1 or segs[1] in PRIM2 or segs[1] in PRIM3) \
+        if len(segs) == 2 and (segs[0] in ("T", "Round", "Self", "Exp", "Sqrt", "MinMax") or segs[0] in self.scalar_names) \
+                and (segs[1] in PRIM1 or segs[1] in PRIM2 or segs[1] in PRIM3 or segs[1] in self.prof) \
                 and not (segs[0] == "Self" and key in self.ctx.fns):
             a = self.args(xs, env)
             return self.prim(segs[1], a)
@@ -808,6 +1038,11 @@ class Lower:
 
     def prim(self, name, a):
         n = len(a)
+        if name in self.prof and name != "kPI":
+            tmpl = self.prof[name]
+            want = 2 if "{1}" in tmpl else 1
+            if n != want: fail(f"primitive {name} with {n} arguments")
+            return Val(tmpl.format(*[self.scalar(x) for x in a]), ("tup", ["T", "T"]) if name == "min_max" else "T")
         if name in PRIM1 and n == 1:
             lean = PRIM1[name]
             if lean in ANGLE_PRIMS: self.uses_angle = True
@@ -829,10 +1064,14 @@ class Lower:
                 return self.apply_fn(self.ctx.fns[key], self.args(recv[2], env) + self.args(xs, env), key)
         r = self.expr(recv, env)
         if name in IDENTITY_METHODS and not xs: return r
+        if r.ty not in ("T", "B", "P", "C") and r.ty[0] == "fn" and name == "apply_to":      # `F: BlendFunction<C>` (closures: `self(source, destination)`)
+            a = self.args(xs, env)
+            if [x.ty for x in a] != r.ty[1]: fail("apply_to: argument types")
+            return Val("(" + " ".join([r.code] + [x.code for x in a]) + ")", r.ty[2])
         if r.ty == "T":
             if name == "into" and not xs: return r                    # T -> hue newtype (`From<T> for Hue`: `$name(degrees)`)
             if name == "powi":
-                if len(xs) != 1 or xs[0][0] != "num" or xs[0][1] not in ("2", "3"): fail("powi with an exponent other than the literals 2, 3")
+                if len(xs) != 1 or xs[0][0] != "num" or xs[0][1] not in ("2", "3", "7"): fail("powi with an exponent other than the literals 2, 3, 7")
                 return Val(f"(Prim.powi{xs[0][1]} {r.code})", "T")
             if name == "sin_cos" and not xs:
                 return Val(f"(Scalar.sin {r.code}, Scalar.cos {r.code})", ("tup", ["T", "T"]))
@@ -842,7 +1081,7 @@ class Lower:
                 return Val(f"({y} {rel} {r.code})" if flip else f"({r.code} {rel} {y})", "P")
             if name == "eq" and len(xs) == 1: return Val(f"(Scalar.eqv {r.code} {self.scalar(self.expr(xs[0], env))})", "P")
             if name == "neq" and len(xs) == 1: return Val(f"(¬ Scalar.eqv {r.code} {self.scalar(self.expr(xs[0], env))})", "P")
-            if name in PRIM1 or name in PRIM2 or name in PRIM3:
+            if name in PRIM1 or name in PRIM2 or name in PRIM3 or (name in self.prof and name != "kPI"):
                 return self.prim(name, [r] + self.args(xs, env))
             if ("T", name) in self.ctx.methods:                        # hue / angle helpers translated from their macro bodies
                 return self.apply_fn(self.ctx.methods[("T", name)], [r] + self.args(xs, env), name)
@@ -858,17 +1097,73 @@ class Lower:
                 return Val(f"(if {self.as_cond(r)} then {a.code} else {b.code})", a.ty[1])
             fail(f"mask method .{name}()")
         if r.ty[0] == "V3":
-            if name == "into" and not xs: return Val(r.code, ("V3", None))       # colour -> [T; 3] (impl_array_casts!)
             key = (self.ctx.resolve(r.ty[1]) if r.ty[1] else None, name)
             if key in self.ctx.methods:
                 return self.apply_fn(self.ctx.methods[key], [r] + self.args(xs, env), f"{key[0]}::{name}")
+            if name == "into" and not xs: return Val(r.code, ("V3", None))       # colour -> [T; 3] (impl_array_casts!)
             fail(f"method .{name}() of {r.ty[1]} is outside the translated subset")
-        if r.ty[0] == "S":
+        if r.ty[0] in ("S", "E"):
             key = (r.ty[1], name)
             if key in self.ctx.methods:
                 return self.apply_fn(self.ctx.methods[key], [r] + self.args(xs, env), f"{key[0]}::{name}")
             fail(f"method .{name}() of {r.ty[1]}")
+        if r.ty == "C":
+            if ("C", name) in self.ctx.methods:
+                return self.apply_fn(self.ctx.methods[("C", name)], [r] + self.args(xs, env), f"C::{name}")
+            fail(f"method .{name}() of a generic colour")
         fail(f"method .{name}() on {r.ty!r}")
+
+    # ---- enums
+    def enum_pat(self, pat, en_name):
+        """(rust variant, lean constructor, argument types, sub-patterns) of an enum pattern of the registered enum `en_name`"""
+        if pat[0] != "penum": fail("match: wildcard / binding patterns are outside the translated subset (every variant must be named)")
+        segs, subs = pat[1], pat[2]
+        if len(segs) < 2 or segs[-2] != en_name: fail(f"match: pattern {'::'.join(segs)} is not a variant of {en_name}")
+        vs = ENUMS[en_name]["variants"]
+        if segs[-1] not in vs: fail(f"match: {en_name} has no registered variant {segs[-1]}")
+        lean, argtys = vs[segs[-1]]
+        subs = subs or []
+        if len(subs) != len(argtys): fail(f"match: {en_name}::{segs[-1]} takes {len(argtys)} fields")
+        return segs[-1], lean, argtys, subs
+
+    def match_value(self, e, env):
+        scrut = self.expr(e[1], env)
+        if scrut.ty in ("T", "B", "P", "C") or scrut.ty[0] != "E": fail(f"match on {scrut.ty!r} (only registered enums)")
+        en = scrut.ty[1]
+        seen, arms = [], []
+        for pats, body in e[2]:
+            if len(pats) != 1: fail("match: `|` patterns are outside the translated subset")
+            variant, lean, argtys, subs = self.enum_pat(pats[0], en)
+            if variant in seen: fail(f"match: variant {variant} twice")
+            seen.append(variant)
+            env2, names = dict(env), []
+            for sp, ty in zip(subs, argtys):
+                if sp[0] == "pwild": names.append("_"); continue
+                if sp[0] != "pid": fail("match: nested patterns")
+                n = lname(sp[1]); names.append(n); env2[sp[1]] = Val(n, ty)
+            arms.append((lean, names, self.wrap(self.expr(body, env2))))
+        missing = [v for v in ENUMS[en]["variants"] if v not in seen]
+        if missing: fail(f"match on {en}: variants {missing} not covered")
+        tys = [v.ty for _, _, v in arms]
+        if any(t == "P" for t in tys):          # a mask computed per variant: Bool (a `Prop`-valued match has no Decidable instance)
+            arms = [(l, n, Val(self.as_bool(v), "B")) for l, n, v in arms]; tys = ["B"] * len(arms)
+        for t in tys[1:]:
+            if t != tys[0] and not (t not in ("T", "B", "P", "C") and tys[0] not in ("T", "B", "P", "C") and t[0] == "V3" and tys[0][0] == "V3"):
+                fail(f"match: arm types differ ({tys[0]!r} / {t!r})")
+        code = f"(match {scrut.code} with\n" + "\n".join(f"| .{l}" + "".join(" " + n for n in ns) + f" => {v.code}" for l, ns, v in arms) + ")"
+        return Val(code, tys[0])
+
+    def matches_value(self, e, env):
+        scrut = self.expr(e[1], env)
+        if scrut.ty in ("T", "B", "P", "C") or scrut.ty[0] != "E": fail(f"matches! on {scrut.ty!r}")
+        en = scrut.ty[1]
+        hit = []
+        for p in e[2]:
+            variant, lean, argtys, subs = self.enum_pat(p, en)
+            if argtys: fail("matches!: variants with fields")
+            hit.append(variant)
+        code = f"(match {scrut.code} with\n" + "\n".join(f"| .{ENUMS[en]['variants'][v][0]} => {'true' if v in hit else 'false'}" for v in ENUMS[en]["variants"]) + ")"
+        return Val(code, "B")
 
     # ---- control flow
     def static_cond(self, c, env):
@@ -907,7 +1202,7 @@ class Lower:
             n = lname(pat[1])
             if v.ty != "T" and v.ty[0] in ("typeid", "static", "phantom"):
                 env[pat[1]] = v; return
-            if v.ty == "P": v = Val(self.as_bool(v), "B")
+            if v.ty == "P" and self.mask != "prop": v = Val(self.as_bool(v), "B")
             if v.ty != "T" and v.ty[0] == "thunk": fail("binding a parameterless closure")
             lines.append(f"let {n} : {lean_ty(v.ty)} := {v.code};")
             env[pat[1]] = Val(n, v.ty)
@@ -930,10 +1225,19 @@ class Lower:
                 if v.ty == "T" or v.ty[0] != "V3" or len(pat[1]) != 3: fail(f"array pattern against {v.ty!r}")
                 for i, p in enumerate(pat[1]):
                     self.bind(p, Val(f"{t}.c{i}", "T"), env, lines)
+            elif v.ty not in ("T", "B", "P", "C") and v.ty[0] == "S":
+                name = self.self_ty if pat[1] == "Self" else pat[1]
+                name = STRUCT_RENAME.get(name, name)
+                if name != v.ty[1]: fail(f"struct pattern {name} against a {v.ty[1]}")
+                info = {rf: (fty, tmpl) for rf, fty, tmpl in struct_info(name)["fields"]}
+                if not pat[3] and sorted(f for f, _ in pat[2]) != sorted(info): fail(f"struct pattern {name}: fields without `..`")
+                for f, p in pat[2]:
+                    if f not in info: fail(f"pattern field {f} of {name}")
+                    self.bind(p, Val(info[f][1].replace("{}", t), info[f][0]), env, lines)
             else:
                 name = self.self_ty if pat[1] == "Self" else pat[1]
-                if v.ty == "T" or v.ty[0] != "V3" or v.ty[1] is None: fail(f"struct pattern {name} against {v.ty!r}")
-                if self.ctx.resolve(name) != self.ctx.resolve(v.ty[1]): fail(f"struct pattern {name} against a {v.ty[1]}")
+                if v.ty == "T" or v.ty[0] != "V3" or (v.ty[1] is None and not STRUCT_RENAME): fail(f"struct pattern {name} against {v.ty!r}")
+                if v.ty[1] is not None and self.ctx.resolve(name) != self.ctx.resolve(v.ty[1]): fail(f"struct pattern {name} against a {v.ty[1]}")
                 fs = self.ctx.fields(name)
                 for f, p in pat[2]:
                     if f not in fs: fail(f"pattern field {f} of {name}")
@@ -994,11 +1298,19 @@ class Lower:
         s = ss[i]
         if s[0] == "let":
             if s[3] is None: fail("`let` without initialiser")
+            if s[3][0] == "call" and s[3][1][0] == "path" and s[3][1][1] == ["zip_input"] and s[1][0] == "pid":
+                env[s[1][1]] = Val("_", ("iter", "zip_input", s[3][2]))      # consumed by the `for` over it (zip_loop)
+                return self.stmts(ss, i + 1, tail, env)
             self.hint = s[2]
             v = self.expr(s[3], env)
             self.hint = None
             lines = []
             self.bind(s[1], v, env, lines)
+            rest = self.stmts(ss, i + 1, tail, env)
+            return Val("\n".join(lines + [rest.code]), rest.ty)
+        if s[0] == "assign" and s[1][0] == "field":
+            lines = []
+            self.assign_place(s[1], self.expr(s[2], env), env, lines)
             rest = self.stmts(ss, i + 1, tail, env)
             return Val("\n".join(lines + [rest.code]), rest.ty)
         if s[0] == "assign":
@@ -1120,7 +1432,80 @@ class Lower:
         rest = self.stmts(ss, i + 1, tail, env)
         return Val("\n".join(lines + [rest.code]), rest.ty)
 
+    def assign_place(self, place, v, env, lines):
+        """`x = v` or `x.f = v` for a local (struct) variable `x`: rebinding; a field update rebuilds the struct with the other fields unchanged"""
+        while place[0] == "unary" and place[1] in ("&", "*"): place = place[2]
+        if place[0] == "path" and len(place[1]) == 1:
+            n = place[1][0]
+            if n not in env: fail(f"assignment to unbound {n}")
+            if v.ty != env[n].ty: fail(f"assignment changes the type of {n}")
+            self.bind(("pid", n, True), v, env, lines); return
+        if place[0] == "field" and place[1][0] == "path" and len(place[1][1]) == 1:
+            n, f = place[1][1][0], place[2]
+            if n not in env: fail(f"assignment to a field of unbound {n}")
+            sv = env[n]
+            if sv.ty in ("T", "B", "P", "C") or sv.ty[0] != "S": fail(f"field assignment on {sv.ty!r}")
+            info = struct_info(sv.ty[1])
+            args, hit = {}, False
+            for rf, fty, tmpl in info["fields"]:
+                if rf == f:
+                    if v.ty != fty: fail(f"assignment changes the type of {n}.{f}")
+                    args[rf] = v.code; hit = True
+                else: args[rf] = tmpl.replace("{}", sv.code)
+            if not hit: fail(f"{sv.ty[1]} has no field {f}")
+            self.bind(("pid", n, True), Val(info["mk"].format(**args), sv.ty), env, lines); return
+        fail("assignment to something other than a local variable or a field of one")
+
+    def zip_loop(self, e, ss, i, tail, env):
+        """`for (src, dst) in zip_colors(X, &mut Y) { *dst = E; }`  ->  `Y := Prim.zipWith (fun src dst => E) X Y`   (blend.rs `zip_colors`: the
+           components of X by value zipped with mutable references to those of Y);
+           `for (s, sp, sa, d, dp, da) in <zip_input(S, D, &mut DP, DA)> { *dp = E; }`  ->  `DP := Prim.zip4With (fun s sp d dp => E) S.color S.color_pre D DP`
+           with `sa = S.alpha`, `da = DA` (blend/blend.rs `zip_input`)"""
+        pat, it, body = e[1], e[2], e[3]
+        if it[0] == "path" and len(it[1]) == 1 and it[1][0] in env and env[it[1][0]].ty != "T" and env[it[1][0]].ty[0] == "iter":
+            kind, args = env[it[1][0]].ty[1], env[it[1][0]].ty[2]
+        elif it[0] == "call" and it[1][0] == "path" and it[1][1][-1] in ("zip_colors", "zip_input"):
+            kind, args = it[1][1][-1], it[2]
+        else: return None
+        if body[2] is not None or len(body[1]) != 1 or body[1][0][0] != "assign": fail("for over a zip: the body must be the single statement `*dst = e;`")
+        lhs, rhs = body[1][0][1], body[1][0][2]
+        if pat[0] != "ptuple" or any(q[0] != "pid" for q in pat[1]): fail("for over a zip: tuple pattern of plain names expected")
+        names = [q[1] for q in pat[1]]
+        def place_of(a):
+            if a[0] != "unary" or a[1] != "&": fail("for over a zip: the destination must be passed as `&mut place`")
+            return a[2]
+        lines = []
+        env2 = dict(env)
+        if kind == "zip_colors":
+            if len(args) != 2 or len(names) != 2: fail("zip_colors: two arguments, pattern `(src, dst)`")
+            place = place_of(args[1])
+            lists = [self.expr(args[0], env), self.expr(place, env)]
+            comp = names
+        else:
+            if len(args) != 4 or len(names) != 6: fail("zip_input: four arguments, pattern of six names")
+            place = place_of(args[2])
+            sv = self.expr(args[0], env)
+            if sv.ty != ("S", "BlendInput"): fail("zip_input: first argument must be a BlendInput")
+            fs = {rf: Val(tmpl.replace("{}", sv.code), fty) for rf, fty, tmpl in struct_info("BlendInput")["fields"]}
+            lists = [fs["color"], fs["color_pre"], self.expr(args[1], env), self.expr(place, env)]
+            comp = [names[0], names[1], names[3], names[4]]
+            for nm, val in ((names[2], fs["alpha"]), (names[5], self.expr(args[3], env))):      # constant over the loop: bound outside the lambda
+                t = self.tmp("z")
+                lines.append(f"let {t} : α := {self.scalar(val)};")
+                env2[nm] = Val(t, "T")
+        if any(l.ty != "C" for l in lists): fail("for over a zip: generic colours (component lists) expected")
+        if lhs != ("unary", "*", ("path", [comp[-1]], [])): fail(f"for over a zip: the body must assign `*{comp[-1]}`")
+        for nm in comp: env2[nm] = Val(lname(nm), "T")
+        ev = self.expr(rhs, env2)
+        fn = "Prim.zipWith" if kind == "zip_colors" else "Prim.zip4With"
+        new = Val(f"({fn} (fun " + " ".join(f"({lname(nm)} : α)" for nm in comp) + f" => {self.scalar(ev)}) " + " ".join(l.code for l in lists) + ")", "C")
+        self.assign_place(place, new, env, lines)
+        rest = self.stmts(ss, i + 1, tail, env)
+        return Val("\n".join(lines + [rest.code]), rest.ty)
+
     def for_loop(self, e, ss, i, tail, env):
+        z = self.zip_loop(e, ss, i, tail, env)
+        if z is not None: return z
         pat, it, body = e[1], e[2], e[3]
         if pat[0] not in ("pwild", "pid") or (pat[0] == "pid" and not pat[1].startswith("_")): fail("for: the loop variable must be unused (`_`)")
         if it[0] != "range" or it[1] != ("num", "0") or it[2] is None: fail("for: only `0..N` ranges")
@@ -1316,37 +1701,373 @@ UNTRANSLATED = [
     "the per-component-type primitives of num.rs / angle.rs (`max min sqrt cbrt powf powi recip abs floor sin cos atan2 hypot mul_add mul_sub",
     "  is_valid_divisor`, comparisons, `select`): fields of `class Scalar` / `class Angle` and PaletteModel/BodyPrim.lean",
     "`impl_color_add!/_sub!/_mul!/_div!` (macros/arithmetics.rs), read as `Prim.v3*`; `LinearFn` (identity); the SIMD mask types of `wide`",
-    "cam16/*.rs (C16 has its own extraction)",
+    "cam16/*.rs, color_difference.rs, blend/*.rs: translated as the families `cam16`, `diff`, `blend` (Gen/BodiesCam16.lean, Gen/BodiesDiff.lean,",
+    "  Gen/BodiesBlend.lean; ties in PaletteProofs/Tie_Cam16.lean, Tie_Diff.lean, Tie_Blend.lean)",
 ]
+
+SCALAR_TYPES = {"T", "T::Scalar", "Self::Scalar", "C::Scalar"}    # extended per body by `scalars=[..]` (type parameters standing for the float)
+STRUCT_RENAME = {}                                                 # Rust struct name -> registered struct, per body (`structs={..}`)
+GENERIC_COLOURS = set()                                            # type parameters standing for a colour (`C`), set per body by `colours=[..]`
+
+# ------------------------------------------------------------------------------------------------ families: CAM16, colour difference, blending
+ATTRS = r"(?:\s*#\[[^\]]*\])*\s*"
+def impl_of(head, label=None):
+    """regex of an `impl<..> <head>` header, `head` given with single spaces"""
+    def pat(t): return r"\s*".join(re.escape(x) for x in re.findall(r"\w+|[^\w\s]", t))
+    return (r"impl\s*(?:<[^{]*?>)?\s*" + pat(head) + r"(?![\w<])", label or ("impl " + head))
+
+CAM16_HUES = (r"macro_rules!\s+make_hues\b", "macro_rules! make_hues")
+C16 = dict(k="const", prims="cam16", mask="prop")
+BODIES_CAM16 = [
+    # ---- angle.rs / hues.rs macro bodies in the reading of Color/Cam16.lean (`to_degrees`/`to_radians` of std as `Cam16.toDegrees/toRadians`)
+    B("cam16NormalizeSigned", "angle.rs", (r"macro_rules!\s+impl_angle_float\b", "macro_rules! impl_angle_float"), "normalize_signed_angle", "Cam16.normalizeSigned",
+      self_ty="T", as_method=[("T", "normalize_signed_angle")]),
+    B("cam16HueFromRadians", "hues.rs", CAM16_HUES, "from_radians", "Cam16.hueFromRadians", self_ty="Hue", as_fn=["from_radians"], **C16),
+    B("cam16HueIntoRadians", "hues.rs", CAM16_HUES, "into_radians", "Cam16.hueIntoRadians", self_ty="Hue", as_method=[("T", "into_radians")], **C16),
+    B("cam16HueIntoRawRadians", "hues.rs", CAM16_HUES, "into_raw_radians", "Cam16.hueIntoRawRadians", self_ty="Hue", as_method=[("T", "into_raw_radians")], **C16),
+    B("cam16HueFromCartesian", "hues.rs", CAM16_HUES, "from_cartesian", None, self_ty="Hue", as_fn=["from_cartesian"], **C16),
+    B("cam16HueIntoCartesian", "hues.rs", CAM16_HUES, "into_cartesian", None, self_ty="Hue", as_method=[("T", "into_cartesian")], **C16),
+    # ---- cam16/math.rs
+    B("cam16Map3", "cam16/math.rs", None, "map3", "Cam16.map3", scalars=["U"], as_fn=["map3"], **C16),
+    B("cam16Mul3", "cam16/math.rs", None, "mul3", "Cam16.mul3", as_fn=["mul3"], **C16),
+    B("cam16Lerp", "cam16/math.rs", None, "lerp", "Cam16.lerp", as_fn=["lerp"], **C16),
+    B("cam16M16", "cam16/math.rs", None, "m16", "Cam16.m16", as_fn=["m16"], **C16),
+    B("cam16M16Inv", "cam16/math.rs", None, "m16_inv", "Cam16.m16Inv", as_fn=["m16_inv"], **C16),
+    B("adaptRun", "cam16/math.rs", impl_of("Adapt<T>"), "run", "Cam16.adaptRun", self_ty="Adapt", scalars=["V"], as_method=[("Adapt", "run")], **C16),
+    B("unadaptRun", "cam16/math.rs", impl_of("Unadapt<T>"), "run", "Cam16.unadaptRun", self_ty="Unadapt", scalars=["V"], as_method=[("Unadapt", "run")], **C16),
+    B("surroundIntoPercent", "cam16/parameters.rs", impl_of("Surround<T>"), "into_percent", "Cam16.Surround.intoPercent", self_ty="Surround",
+      as_method=[("Surround", "into_percent")], **C16),
+    B("calculateLightness", "cam16/math.rs", None, "calculate_lightness", "Cam16.calculateLightness", as_fn=["calculate_lightness"], **C16),
+    B("calculateBrightness", "cam16/math.rs", None, "calculate_brightness", "Cam16.calculateBrightness", as_fn=["calculate_brightness"], **C16),
+    B("calculateChroma", "cam16/math.rs", None, "calculate_chroma", "Cam16.calculateChroma", as_fn=["calculate_chroma"], **C16),
+    B("calculateColorfulness", "cam16/math.rs", None, "calculate_colorfulness", "Cam16.calculateColorfulness", as_fn=["calculate_colorfulness"], **C16),
+    B("calculateSaturation", "cam16/math.rs", None, "calculate_saturation", "Cam16.calculateSaturation", as_fn=["calculate_saturation"], **C16),
+    B("lightnessToJRoot", "cam16/math.rs", None, "lightness_to_j_root", "Cam16.lightnessToJRoot", as_fn=["lightness_to_j_root"], **C16),
+    B("brightnessToJRoot", "cam16/math.rs", None, "brightness_to_j_root", "Cam16.brightnessToJRoot", as_fn=["brightness_to_j_root"], **C16),
+    B("saturationToAlpha", "cam16/math.rs", None, "saturation_to_alpha", "Cam16.saturationToAlpha", as_fn=["saturation_to_alpha"], **C16),
+    B("lightnessToBrightness", "cam16/math.rs", None, "lightness_to_brightness", "Cam16.lightnessToBrightness", as_fn=["lightness_to_brightness"], **C16),
+    B("brightnessToLightness", "cam16/math.rs", None, "brightness_to_lightness", "Cam16.brightnessToLightness", as_fn=["brightness_to_lightness"], **C16),
+    B("chromaToColorfulness", "cam16/math.rs", None, "chroma_to_colorfulness", "Cam16.chromaToColorfulness", as_fn=["chroma_to_colorfulness"], **C16),
+    B("chromaToSaturation", "cam16/math.rs", None, "chroma_to_saturation", "Cam16.chromaToSaturation", as_fn=["chroma_to_saturation"], **C16),
+    B("colorfulnessToChroma", "cam16/math.rs", None, "colorfulness_to_chroma", "Cam16.colorfulnessToChroma", as_fn=["colorfulness_to_chroma"], **C16),
+    B("saturationToChroma", "cam16/math.rs", None, "saturation_to_chroma", "Cam16.saturationToChroma", as_fn=["saturation_to_chroma"], **C16),
+    B("prepareParameters", "cam16/math.rs", None, "prepare_parameters", "Cam16.prepareParameters", **C16),
+    B("xyzToCam16", "cam16/math.rs", None, "xyz_to_cam16", "Cam16.xyzToCam16", **C16),
+    B("nonBlackCam16ToXyz", "cam16/math.rs", None, "non_black_cam16_to_xyz", "Cam16.nonBlackCam16ToXyz", as_fn=["non_black_cam16_to_xyz"], **C16),
+    B("cam16ToXyz", "cam16/math.rs", None, "cam16_to_xyz", "Cam16.cam16ToXyz", **C16),
+    # ---- cam16/math/luminance.rs, chromaticity.rs
+    B("lumIntoCam16", "cam16/math/luminance.rs", impl_of("LuminanceType<T>"), "into_cam16", "Cam16.Lum.intoCam16", self_ty="LuminanceType", **C16),
+    B("chrIntoCam16", "cam16/math/chromaticity.rs", impl_of("ChromaticityType<T>"), "into_cam16", "Cam16.Chr.intoCam16", self_ty="ChromaticityType", **C16),
+    # ---- CAM16-UCS (ucs_jmh.rs, ucs_jab.rs, partial.rs)
+    B("jmhToUcs", "cam16/ucs_jmh.rs", conv("Cam16Jmh<T>", "Cam16UcsJmh<T>"), "from_color_unclamped", "Cam16.jmhToUcs", **C16),
+    B("ucsToJmh", "cam16/partial.rs", conv("Cam16UcsJmh<T>", "Cam16Jmh<T>"), "from_color_unclamped", "Cam16.ucsToJmh", **C16),
+    B("ucsJmhToJab", "cam16/ucs_jab.rs", conv("Cam16UcsJmh<T>", "Cam16UcsJab<T>"), "from_color_unclamped", "Cam16.ucsJmhToJab", **C16),
+    B("ucsJabToJmh", "cam16/ucs_jmh.rs", conv("Cam16UcsJab<T>", "Cam16UcsJmh<T>"), "from_color_unclamped", "Cam16.ucsJabToJmh", **C16),
+]
+
+UNTRANSLATED_CAM16 = [
+    "cam16/partial.rs `make_partial_cam16!` (`from_full`, `into_dynamic`, `from_xyz`, `into_xyz`, `into_full`) and cam16/full.rs (`Cam16::from_xyz/into_xyz`):",
+    "  field selection through macro metavariables (`full.$luminance`, `LuminanceType::$luminance_ty(..)`) and trait-dispatched wrappers",
+    "  (`IntoCam16Unclamped`, `Cam16FromUnclamped`, `BakedParameters: Convert`) around the translated `xyz_to_cam16` / `cam16_to_xyz` /",
+    "  `into_cam16` (model: Cam16.PKind.*, compared by the correspondence run; C16_Cam16 proves the law-free statements about them)",
+    "cam16/parameters.rs `Parameters::bake`, `into_any_white_point`, `WhitePointParameter` (static vs dynamic white point: trait dispatch; the",
+    "  driver passes the resolved white point), `BakedParameters` (a wrapper whose `inner` is the translated `DependentParameters`)",
+    "std's `f32/f64::signum`, `to_degrees`, `to_radians`, `clamp` and `Hypot::hypot`: per-type primitives, read as `Cam16.signum`,",
+    "  `Cam16.toDegrees`, `Cam16.toRadians`, `Scalar.clamp`, `Cam16.hypot` (transcribed by hand, compared on every run)",
+    "NOTE: the model takes every `T::from_f64` constant of these functions from Gen/Cam16.lean (re-extracted on every run), so a changed",
+    "  *coefficient* moves model and translation together (it breaks the C16 spec theorems, e.g. `xyzToCam16_eq_published`, not the tie);",
+    "  the ties below pin the *structure*: operands, operators, association, comparisons, branch order, which parameter is used where",
+]
+
+# ---- colour difference (C09): readings of Diff.lean (`prims="diff"`: degree/radian factors as `Scalar.const Diff.R2D/D2R`, `Diff.hypot`)
+DF = dict(prims="diff", mask="prop")
+DIFF_HUES = (r"macro_rules!\s+make_hues\b", "macro_rules! make_hues")
+EUCLID = (r"macro_rules!\s+impl_euclidean_distance\b", "macro_rules! impl_euclidean_distance")
+HYAB = (r"macro_rules!\s+impl_hyab\b", "macro_rules! impl_hyab")
+WCAG = (r"\btrait\s+Wcag21RelativeContrast\b", "trait Wcag21RelativeContrast")
+EUCLID_TRAIT = (r"\btrait\s+EuclideanDistance\b", "trait EuclideanDistance")
+LUMAS = {"self.relative_luminance().luma": "l1", "other.relative_luminance().luma": "l2"}
+CONTRAST = {"self.relative_contrast(other)": "contrast"}
+def wcag_pred(name, fn, model):
+    return B(name, "color_difference.rs", WCAG, fn, model, holes=CONTRAST, skip_params=["self", "other"], **DF)
+
+BODIES_DIFF = [
+    # ---- hue helpers and the polar -> rectangular conversions the difference impls go through (lab.rs, cam16/ucs_jab.rs)
+    B("diffHueIntoRawRadians", "hues.rs", DIFF_HUES, "into_raw_radians", None, self_ty="Hue", as_method=[("T", "into_raw_radians")], **DF),
+    B("diffHueIntoCartesian", "hues.rs", DIFF_HUES, "into_cartesian", "Diff.hueCos", self_ty="Hue", as_method=[("T", "into_cartesian")], **DF),
+    # trait dispatch resolved by the impls' where-clauses (`Lab<Wp, T>: FromColorUnclamped<Self>`, `Lch<Wp, T>: IntoColorUnclamped<Lab<Wp, T>>`)
+    B("diffLchToLab", "lab.rs", conv("Lch<Wp, T>", "Lab<Wp, T>"), "from_color_unclamped", "Diff.polarToRect",
+      as_fn=["Lab::from_color_unclamped"], as_method=[("Lch", "into_color_unclamped")], **DF),
+    B("diffJmhToJab", "cam16/ucs_jab.rs", conv("Cam16UcsJmh<T>", "Cam16UcsJab<T>"), "from_color_unclamped", "Diff.polarToRect",
+      as_fn=["Cam16UcsJab::from_color_unclamped"], as_method=[("Cam16UcsJmh", "into_color_unclamped")], **DF),
+    # ---- CIEDE2000 (color_difference.rs, lab.rs, lch.rs)
+    B("labColorDiffFromLab", "color_difference.rs", impl_of("From<Lab<Wp, T>> for LabColorDiff<T>"), "from", "Diff.fromLab", self_ty="LabColorDiff",
+      as_method=[("Lab", "into")], **DF),
+    B("labColorDiffFromLch", "color_difference.rs", impl_of("From<Lch<Wp, T>> for LabColorDiff<T>"), "from", "Diff.fromLch", self_ty="LabColorDiff",
+      as_method=[("Lch", "into")], **DF),
+    B("getCiede2000Difference", "color_difference.rs", None, "get_ciede2000_difference", "Diff.ciede2000", as_fn=["get_ciede2000_difference"], **DF),
+    B("labCiede2000", "lab.rs", impl_of("Ciede2000 for Lab<Wp, T>"), "difference", "Diff.ciede2000", self_ty="Lab", **DF),
+    B("lchCiede2000", "lch.rs", impl_of("Ciede2000 for Lch<Wp, T>"), "difference", "Diff.ciede2000", self_ty="Lch", **DF),
+    B("improvedCiede2000", "color_difference.rs", impl_of("ImprovedCiede2000 for C"), "improved_difference", "Diff.improvedOfCiede",
+      holes={"self.difference(other)": "difference"}, skip_params=["self", "other"], **DF),
+    # ---- Euclidean distance, Delta E, improved Delta E, HyAB (macros/color_difference.rs instantiated at an actual invocation)
+    B("labDistanceSquared", "macros/color_difference.rs", EUCLID, "distance_squared", "Diff.distSq3", self_ty="Lab",
+      macro_args={"ty": "Lab", "ty_param": ["Wp"], "component": ["l", "a", "b"]}, invocation=("lab.rs", "impl_euclidean_distance", "Lab<Wp> {l, a, b}"),
+      as_method=[("Lab", "distance_squared")], **DF),
+    B("jabDistanceSquared", "macros/color_difference.rs", EUCLID, "distance_squared", "Diff.distSq3", self_ty="Cam16UcsJab",
+      macro_args={"ty": "Cam16UcsJab", "ty_param": [], "component": ["lightness", "a", "b"]},
+      invocation=("cam16/ucs_jab.rs", "impl_euclidean_distance", "Cam16UcsJab { lightness, a, b }"), as_method=[("Cam16UcsJab", "distance_squared")], **DF),
+    B("labDistance", "color_difference.rs", EUCLID_TRAIT, "distance", "Diff.dist3", self_ty="Lab", as_method=[("Lab", "distance")], **DF),
+    B("jabDistance", "color_difference.rs", EUCLID_TRAIT, "distance", "Diff.dist3", self_ty="Cam16UcsJab", as_method=[("Cam16UcsJab", "distance")], **DF),
+    B("labDeltaE", "lab.rs", impl_of("DeltaE for Lab<Wp, T>"), "delta_e", "Diff.dist3", self_ty="Lab", as_method=[("Lab", "delta_e")], **DF),
+    B("labImprovedDeltaE", "lab.rs", impl_of("ImprovedDeltaE for Lab<Wp, T>"), "improved_delta_e", "Diff.improvedDeltaELab", self_ty="Lab",
+      as_method=[("Lab", "improved_delta_e")], **DF),
+    B("jabDeltaE", "cam16/ucs_jab.rs", impl_of("DeltaE for Cam16UcsJab<T>"), "delta_e", "Diff.dist3", self_ty="Cam16UcsJab",
+      as_method=[("Cam16UcsJab", "delta_e")], **DF),
+    B("jabImprovedDeltaE", "cam16/ucs_jab.rs", impl_of("ImprovedDeltaE for Cam16UcsJab<T>"), "improved_delta_e", "Diff.improvedDeltaEJab", self_ty="Cam16UcsJab",
+      as_method=[("Cam16UcsJab", "improved_delta_e")], **DF),
+    B("lchDeltaE", "lch.rs", impl_of("DeltaE for Lch<Wp, T>"), "delta_e", "Diff.deltaEPolarWith", self_ty="Lch", **DF),
+    B("lchImprovedDeltaE", "lch.rs", impl_of("ImprovedDeltaE for Lch<Wp, T>"), "improved_delta_e", "Diff.improvedDeltaELchWith", self_ty="Lch", **DF),
+    B("jmhDeltaE", "cam16/ucs_jmh.rs", impl_of("DeltaE for Cam16UcsJmh<T>"), "delta_e", "Diff.deltaEPolarWith", self_ty="Cam16UcsJmh", **DF),
+    B("jmhImprovedDeltaE", "cam16/ucs_jmh.rs", impl_of("ImprovedDeltaE for Cam16UcsJmh<T>"), "improved_delta_e", "Diff.improvedDeltaEJmhWith", self_ty="Cam16UcsJmh", **DF),
+    B("labHyab", "macros/color_difference.rs", HYAB, "hybrid_distance", "Diff.hyab", self_ty="Lab",
+      macro_args={"ty": "Lab", "ty_param": ["Wp"], "lightness": "l", "chroma1": "a", "chroma2": "b"},
+      invocation=("lab.rs", "impl_hyab", "Lab<Wp> {lightness: l, chroma1: a, chroma2: b}"), **DF),
+    # ---- WCAG 2.1 relative contrast: default methods of the trait; the trait-dispatched `relative_luminance` / `relative_contrast` are holes
+    B("relativeContrast", "color_difference.rs", WCAG, "relative_contrast", "Diff.relativeContrast", holes=LUMAS, skip_params=["self", "other"], **DF),
+    wcag_pred("hasMinContrastText", "has_min_contrast_text", "Diff.hasMinContrastText"),
+    wcag_pred("hasMinContrastLargeText", "has_min_contrast_large_text", "Diff.hasMinContrastLargeText"),
+    wcag_pred("hasEnhancedContrastText", "has_enhanced_contrast_text", "Diff.hasEnhancedContrastText"),
+    wcag_pred("hasEnhancedContrastLargeText", "has_enhanced_contrast_large_text", "Diff.hasEnhancedContrastLargeText"),
+    wcag_pred("hasMinContrastGraphics", "has_min_contrast_graphics", "Diff.hasMinContrastGraphics"),
+]
+
+UNTRANSLATED_DIFF = [
+    "the other invocations of `impl_euclidean_distance!` / `impl_hyab!` (Luv, Oklab, Xyz, Yxy, Lms, Rgb, Luma; Luv, Oklab, Cam16UcsJab): the same",
+    "  macro bodies, translated here at `Lab<Wp> {l, a, b}` and `Cam16UcsJab { lightness, a, b }`; the invocation tables (which components, in",
+    "  which order) are extracted data pinned by the kernel-decided theorems of C09_Diff (Gen/Diff.lean); `Luma` (one component) is not a `V3`",
+    "`Wcag21RelativeContrast::relative_luminance` for Rgb / Luma (`self.into_color()`: trait-dispatched conversion to `LinLuma<D65>`, C01/C03);",
+    "  `relative_contrast` and the five predicates are translated with the luminances / the ratio as parameters",
+    "the deprecated `ColorDifference::get_color_difference` (same expression as `Ciede2000::difference`) and `relative_contrast.rs` (deprecated)",
+    "`Hypot::hypot`, `f32/f64::to_degrees/to_radians`, `MinMax::min_max`, `Powi::powi(7)`: per-type primitives, read as `Diff.hypot`, `· * const Diff.R2D`,",
+    "  `· * const Diff.D2R`, `Diff.minMax`, `Prim.powi7` (= `Diff.powi7`)",
+]
+
+# ---- blending and compositing (C08): a generic colour `C` is the list of its components, `PreAlpha<C>` / `Alpha<C, T>` are `Blend.WithAlpha`
+BL = dict(mask="prop", colours=["C"])
+PA = ("S", "PreAlpha")
+MODES = [("multiply", "multiply"), ("screen", "screen"), ("overlay", "overlay"), ("darken", "darken"), ("lighten", "lighten"), ("dodge", "dodge"),
+         ("burn", "burn"), ("hard_light", "hardLight"), ("soft_light", "softLight"), ("difference", "difference"), ("exclusion", "exclusion")]
+OPS = ["over", "inside", "outside", "atop", "xor", "plus"]
+def cap(x): return x[0].upper() + x[1:]
+PREMUL = (r"macro_rules!\s+impl_premultiply\b", "macro_rules! impl_premultiply")
+
+BODIES_BLEND = [
+    B("blendAlpha", "blend.rs", None, "blend_alpha", "Blend.blendAlpha", as_fn=["blend_alpha"], **BL),
+    # ---- the eleven separable blend functions (blend/blend.rs); `overlay_blend` calls `hard_light_blend`
+    B("multiplyBlend", "blend/blend.rs", None, "multiply_blend", "Blend.multiplyBlend", as_fn=["multiply_blend"], **BL),
+    B("screenBlend", "blend/blend.rs", None, "screen_blend", "Blend.screenBlend", as_fn=["screen_blend"], **BL),
+    B("hardLightBlend", "blend/blend.rs", None, "hard_light_blend", "Blend.hardLightBlend", as_fn=["hard_light_blend"], **BL),
+    B("overlayBlend", "blend/blend.rs", None, "overlay_blend", "Blend.overlayBlend", as_fn=["overlay_blend"], **BL),
+    B("darkenBlend", "blend/blend.rs", None, "darken_blend", "Blend.darkenBlend", as_fn=["darken_blend"], **BL),
+    B("lightenBlend", "blend/blend.rs", None, "lighten_blend", "Blend.lightenBlend", as_fn=["lighten_blend"], **BL),
+    B("dodgeBlend", "blend/blend.rs", None, "dodge_blend", "Blend.dodgeBlend", as_fn=["dodge_blend"], **BL),
+    B("burnBlend", "blend/blend.rs", None, "burn_blend", "Blend.burnBlend", as_fn=["burn_blend"], **BL),
+    B("softLightBlend", "blend/blend.rs", None, "soft_light_blend", "Blend.softLightBlend", as_fn=["soft_light_blend"], **BL),
+    B("differenceBlend", "blend/blend.rs", None, "difference_blend", "Blend.differenceBlend", as_fn=["difference_blend"], **BL),
+    B("exclusionBlend", "blend/blend.rs", None, "exclusion_blend", "Blend.exclusionBlend", as_fn=["exclusion_blend"], **BL),
+    # ---- `impl_premultiply!` (macros/blend.rs) instantiated at two actual invocations (three-component colours)
+    B("labPremultiply", "macros/blend.rs", PREMUL, "premultiply", "Blend.premultiply", self_ty="Lab", structs={"PreAlpha": "PreAlpha3"},
+      macro_args={"ty": "Lab", "ty_param": ["Wp"], "component": ["l", "a", "b"], "phantom": "white_point"},
+      invocation=("lab.rs", "impl_premultiply", "Lab<Wp> {l, a, b} phantom: white_point"), mask="prop"),
+    B("labUnpremultiply", "macros/blend.rs", PREMUL, "unpremultiply", "Blend.unpremultiply", self_ty="Lab", structs={"PreAlpha": "PreAlpha3"},
+      macro_args={"ty": "Lab", "ty_param": ["Wp"], "component": ["l", "a", "b"], "phantom": "white_point"},
+      invocation=("lab.rs", "impl_premultiply", "Lab<Wp> {l, a, b} phantom: white_point"), mask="bool"),
+    B("rgbPremultiply", "macros/blend.rs", PREMUL, "premultiply", "Blend.premultiply", self_ty="Rgb", structs={"PreAlpha": "PreAlpha3"},
+      macro_args={"ty": "Rgb", "ty_param": ["S"], "component": ["red", "green", "blue"], "phantom": "standard"},
+      invocation=("rgb/rgb.rs", "impl_premultiply", "Rgb<S> {red, green, blue} phantom: standard"), mask="prop"),
+    B("rgbUnpremultiply", "macros/blend.rs", PREMUL, "unpremultiply", "Blend.unpremultiply", self_ty="Rgb", structs={"PreAlpha": "PreAlpha3"},
+      macro_args={"ty": "Rgb", "ty_param": ["S"], "component": ["red", "green", "blue"], "phantom": "standard"},
+      invocation=("rgb/rgb.rs", "impl_premultiply", "Rgb<S> {red, green, blue} phantom: standard"), mask="bool"),
+    # ---- PreAlpha / Alpha helpers (blend/pre_alpha.rs, alpha/alpha.rs); `C::premultiply` / `C::unpremultiply` are the model functions (intrinsics)
+    B("preAlphaNew", "blend/pre_alpha.rs", impl_of("PreAlpha<C>"), "new", "Blend.premultiply", self_ty="PreAlpha", as_fn=["PreAlpha::new"], **BL),
+    B("preAlphaNewOpaque", "blend/pre_alpha.rs", impl_of("PreAlpha<C>"), "new_opaque", "Blend.newOpaque", self_ty="PreAlpha", as_fn=["PreAlpha::new_opaque"], **BL),
+    B("preAlphaUnpremultiply", "blend/pre_alpha.rs", impl_of("PreAlpha<C>"), "unpremultiply", "Blend.unpremultiply", self_ty="PreAlpha", as_method=[("PreAlpha", "unpremultiply")], **BL),
+    B("alphaPremultiply", "alpha/alpha.rs", impl_of("Alpha<C, C::Scalar>"), "premultiply", "Blend.premultiply", self_ty="Alpha", as_method=[("Alpha", "premultiply")], **BL),
+    # ---- BlendInput and blend_separable (blend/blend.rs)
+    B("blendInputNewOpaque", "blend/blend.rs", impl_of("BlendInput<C>"), "new_opaque", "Blend.BlendInput.newOpaque", self_ty="BlendInput", as_fn=["BlendInput::new_opaque"], **BL),
+    B("blendInputFromAlpha", "blend/blend.rs", impl_of("From<Alpha<C, C::Scalar>> for BlendInput<C>"), "from", "Blend.BlendInput.ofAlpha", self_ty="BlendInput",
+      as_method=[("Alpha", "into")], **BL),
+    B("blendInputFromPre", "blend/blend.rs", impl_of("From<PreAlpha<C>> for BlendInput<C>"), "from", "Blend.BlendInput.ofPre", self_ty="BlendInput",
+      as_method=[("PreAlpha", "into")], **BL),
+    B("blendSeparable", "blend/blend.rs", None, "blend_separable", "Blend.blendSeparable", ptypes={"blend": ("fn", ["T", "T"], "T")},
+      as_fn=["blend_separable"], **BL),
+] + [
+    # ---- `impl Blend for PreAlpha<C>` / `for C` / `for Alpha<C, T>`: which blend function each method hands to `blend_separable`
+    B(f"blend{kind}{cap(lean)}", "blend/blend.rs", impl_of(f"Blend for {ty}"), rust, f"Blend.blend{kind}", **BL)
+    for kind, ty in (("Pre", "PreAlpha<C>"), ("Opaque", "C"), ("Straight", "Alpha<C, T>")) for rust, lean in MODES
+] + [
+    # ---- Porter-Duff operators (blend/compose.rs) on premultiplied colours, then the `Alpha` and opaque wrappers
+    B(f"composePre{cap(op)}", "blend/compose.rs", impl_of("Compose for PreAlpha<C>"), op, "Blend.composePre", as_method=[("PreAlpha", op)], **BL) for op in OPS
+] + [
+    B(f"composeStraight{cap(op)}", "blend/compose.rs", impl_of("Compose for Alpha<C, C::Scalar>"), op, "Blend.composeStraight", **BL) for op in OPS
+] + [
+    B(f"composeOpaque{cap(op)}", "blend/compose.rs", impl_of("Compose for C"), op, "Blend.composeOpaque", **BL) for op in OPS
+] + [
+    # ---- blend_with (blend/blend_with.rs): the blend function is a parameter (`F: BlendFunction<C>`, closures: `self(source, destination)`)
+    B("blendWithPre", "blend/blend_with.rs", impl_of("BlendWith for PreAlpha<C>"), "blend_with", None, ptypes={"blend_function": ("fn", [PA, PA], PA)},
+      as_method=[("PreAlpha", "blend_with")], **BL),
+    B("blendWithStraight", "blend/blend_with.rs", impl_of("BlendWith for Alpha<C, C::Scalar>"), "blend_with", "Blend.viaStraight",
+      ptypes={"blend_function": ("fn", [PA, PA], PA)}, **BL),
+    B("blendWithOpaque", "blend/blend_with.rs", impl_of("BlendWith for C"), "blend_with", "Blend.viaOpaque", ptypes={"blend_function": ("fn", [PA, PA], PA)}, **BL),
+    # ---- Equations (blend/equations.rs)
+    B("paramOutMulConstant", "blend/equations.rs", impl_of("ParamOut<C>"), "mul_constant", "Blend.ParamOut.mulConstant", self_ty="ParamOut",
+      as_method=[("ParamOut", "mul_constant")], **BL),
+    B("paramOutMulColor", "blend/equations.rs", impl_of("ParamOut<C>"), "mul_color", "Blend.ParamOut.mulColor", self_ty="ParamOut",
+      as_method=[("ParamOut", "mul_color")], **BL),
+    B("equationsApplyTo", "blend/equations.rs", impl_of("BlendFunction<C> for Equations"), "apply_to", "Blend.Equations.applyTo", self_ty="Equations", **BL),
+]
+
+UNTRANSLATED_BLEND = [
+    "blend/equations.rs `Parameter::apply_to`: the `OneMinus…Color` arms go through `<[T; N]>::from(source).map(..).into()` (array cast of the whole",
+    "  `PreAlpha`, alpha included, a qualified-path call); it occurs in the translated `Equations::apply_to` as the model function",
+    "  `Blend.Parameter.applyTo` on both sides.  `Equations::from_equations/from_parameters` (struct literals of enum constants)",
+    "the iterator plumbing `zip_colors` (blend.rs) and `zip_input` (blend/blend.rs): `IntoIterator`/`zip`/`map` over `cast::into_array(..)`; read as",
+    "  `Prim.zipWith` / `Prim.zip4With` over the component lists (PaletteModel/BodyPrimExt.lean); the loop *bodies* and everything around them are translated;",
+    "  the text of the two functions is pinned by digest (`pins` of the family): a change stops extract.py until the reading is re-confirmed",
+    "`impl_premultiply!` at the other colour types (Xyz, Yxy, Luv, Oklab, Lms, Luma, Cam16UcsJab): the same macro body, translated at `Lab` and `Rgb`;",
+    "  `From<PreAlpha<Self>> for $ty` (`Self::unpremultiply(p).0`); `blend/pre_alpha.rs` arithmetic operator impls (not part of C08)",
+    "the blanket `impl<C, F: FnOnce(PreAlpha<C>, PreAlpha<C>) -> PreAlpha<C>> BlendFunction<C> for F` (`self(source, destination)`): read as application",
+    "`IsValidDivisor::is_valid_divisor`, `clamp`, `MinMax::{min,max}`, `Abs::abs`, `Sqrt::sqrt`: per-type primitives (`class Scalar`)",
+]
+
+FAMILIES = {
+    "blend": dict(file="BodiesBlend.lean", tie="Tie_Blend.lean", imports=["PaletteModel.Blend"], bodies=BODIES_BLEND,
+                  what="blending and compositing (C08): blend.rs, blend/blend.rs, blend/compose.rs, blend/blend_with.rs, blend/equations.rs, blend/pre_alpha.rs, alpha/alpha.rs, macros/blend.rs",
+                  untranslated=UNTRANSLATED_BLEND,
+                  intrinsics={("C", "premultiply"): dict(lean="Blend.premultiply", params=["C", "T"], ret=PA, extra=[]),
+                              "C::unpremultiply": dict(lean="Blend.unpremultiply", params=[PA], ret=("tup", ["C", "T"]), extra=[]),
+                              ("Parameter", "apply_to"): dict(lean="Blend.Parameter.applyTo", params=[("E", "Parameter"), PA, PA], ret=("E", "ParamOut"), extra=[])},
+                  pins=[("blend.rs", "zip_colors", "`Prim.zipWith` (components of `src` by value zipped with `&mut` components of `dst`)", "cfddf925e1aad9b1"),
+                        ("blend/blend.rs", "zip_input", "`Prim.zip4With` over (src.color, src.color_pre, dst, &mut dst_pre) with src.alpha, dst_alpha constant", "b08e87b087b62457")],
+                  structs=["BlendInput", "PreAlpha", "Alpha", "Equations", "EqParameters"],
+                  enums=["Equation", "Parameter", "ParamOut"]),
+    "diff": dict(file="BodiesDiff.lean", tie="Tie_Diff.lean", imports=["PaletteModel.Diff"], bodies=BODIES_DIFF,
+                 what="colour difference (C09): color_difference.rs, macros/color_difference.rs, the difference impls of lab.rs, lch.rs, cam16/ucs_jab.rs, cam16/ucs_jmh.rs",
+                 untranslated=UNTRANSLATED_DIFF,
+                 colour_files={"Cam16UcsJmh": ["cam16/ucs_jmh.rs"], "Cam16UcsJab": ["cam16/ucs_jab.rs"]},
+                 structs=["LabColorDiff"], enums=[]),
+    "cam16": dict(file="BodiesCam16.lean", tie="Tie_Cam16.lean", imports=["PaletteModel.Color.Cam16"], bodies=BODIES_CAM16,
+                  what="CAM16 (C16): cam16/math.rs, math/luminance.rs, math/chromaticity.rs, parameters.rs (`into_percent`), ucs_jmh.rs, ucs_jab.rs, partial.rs (UCS edge)",
+                  untranslated=UNTRANSLATED_CAM16,
+                  colour_files={"Cam16UcsJmh": ["cam16/ucs_jmh.rs"], "Cam16UcsJab": ["cam16/ucs_jab.rs"]},
+                  macro_structs={"Cam16Jmh": ("cam16/partial.rs",
+                                              r"make_partial_cam16!\s*\{" + ATTRS + r"cam16_jmh\s*::\s*Cam16Jmh\s*\{" + ATTRS + r"(\w+)\s*:\s*\w+\s*," + ATTRS + r"(\w+)\s*:\s*\w+\s*\}",
+                                              [1, 2, "hue"],
+                                              r"pub\s+struct\s+\$name\s*<T>\s*\{" + r"(?:\s*\$\(#\[\$\w+\]\)\+)?\s*pub\s+\$luminance\s*:\s*T\s*,"
+                                              + r"(?:\s*\$\(#\[\$\w+\]\)\+)?\s*pub\s+\$chromaticity\s*:\s*T\s*," + ATTRS + r"pub\s+hue\s*:")},
+                  structs=["DependentParameters", "Adapt", "Unadapt", "Parameters", "Cam16"],
+                  enums=["Surround", "Discounting", "LuminanceType", "ChromaticityType"]),
+}
 
 def ty_of(ctx, text, self_ty):
     t = text.strip()
     while t.startswith("&"): t = t[1:].strip()
     if t.startswith("mut "): t = t[4:].strip()
-    if t == "T" or t == "T::Scalar": return "T"
+    if t in SCALAR_TYPES: return "T"
+    if t.endswith("::Mask"): return "B"
+    if re.fullmatch(r"\[\s*(\w+)\s*;\s*3\s*\]", t) and re.fullmatch(r"\[\s*(\w+)\s*;\s*3\s*\]", t).group(1) in SCALAR_TYPES: return ("V3", None)
+    m = re.fullmatch(r"impl\s+FnMut\s*\((.*)\)\s*->\s*(.+)", t, re.S)
+    if m: return ("fn", [ty_of(ctx, x, self_ty) for x in split_top(m.group(1))], ty_of(ctx, m.group(2), self_ty))
     if t == "Self":
         if self_ty is None: fail("`Self` outside an impl")
         return ty_of(ctx, self_ty, None)
     if t == "Hue" or re.fullmatch(r"\$?\w*Hue\b.*", t) or t.startswith("$name"): return "T"
     if t.startswith("("):
         return ("tup", [ty_of(ctx, x, self_ty) for x in split_top(t[1:t.rindex(")")])])
+    t = re.sub(r"^(?:(?:crate|super|self|core|\w+)\s*::\s*)+(?=[A-Z]\w*)", "", t)      # `crate::blend::PreAlpha<Self>` -> `PreAlpha<Self>`
     m = re.match(r"(\w+)", t)
     if not m: fail(f"type {text!r}")
     n = m.group(1)
     if n == "Mat3": return "M3"
     if n == "Vec3": return ("V3", None)
-    if n in STRUCTS: return ("S", n)
-    if ctx.resolve(n) in ctx.type_files: return ("V3", ctx.resolve(n))
+    n = STRUCT_ALIASES.get(n, n)
+    n = STRUCT_RENAME.get(n, n)
+    if n in GENERIC_COLOURS: return "C"
+    if is_struct(n): return ("S", n)
+    if n in ENUMS: return ("E", n)
+    if ctx.resolve(n) in ctx.type_files or n in ctx.macro_structs: return ("V3", ctx.resolve(n))
     if n == "bool": return "B"
     fail(f"type {text!r} is outside the translated subset")
 
 def module_consts(src):
     return {m.group(1): m.group(2) for m in re.finditer(r"\bconst\s+(\w+)\s*:\s*(?:f64|f32|usize)\s*=\s*([0-9][0-9_.eE+-]*)\s*;", src)}
 
+def macro_expand(text, binds):
+    """instantiate a `macro_rules!` transcriber at `binds` (name -> str | [str]): `$( .. )sep+` / `*` groups are repeated over the list
+    metavariables they mention (no nesting), `$( .. )?` groups are kept iff one of their metavariables is bound; `$name` is substituted"""
+    out, i = "", 0
+    while True:
+        j = text.find("$(", i)
+        if j < 0: out += text[i:]; break
+        out += text[i:j]
+        depth, k = 0, j + 1
+        while True:
+            if text[k] == "(": depth += 1
+            elif text[k] == ")":
+                depth -= 1
+                if depth == 0: break
+            k += 1
+        inner = text[j + 2:k]
+        if "$(" in inner: fail("macro_expand: nested repetition")
+        m = re.match(r"\s*([,;]?)\s*([+*?])", text[k + 1:])
+        if not m: fail("macro_expand: repetition without `+`/`*`/`?`")
+        sep, kind = m.group(1), m.group(2)
+        names = re.findall(r"\$(\w+)", inner)
+        if kind == "?":
+            if any(n in binds for n in names): out += macro_expand(inner, binds)
+        else:
+            lists = [n for n in names if isinstance(binds.get(n), list)]
+            if not lists: fail(f"macro_expand: repetition over unbound metavariables {names}")
+            cnt = len(binds[lists[0]])
+            parts = []
+            for idx in range(cnt):
+                b2 = dict(binds)
+                for n in lists: b2[n] = binds[n][idx]
+                parts.append(macro_expand(inner, b2))
+            out += ((sep + " ") if sep else " ").join(parts)
+        i = k + 1 + m.end()
+    def sub(m):
+        n = m.group(1)
+        if n not in binds: fail(f"macro_expand: metavariable ${n} is not bound by the registration")
+        if isinstance(binds[n], list): fail(f"macro_expand: list metavariable ${n} outside a repetition")
+        return binds[n]
+    return re.sub(r"\$(\w+)", sub, out)
+
+def check_invocation(src, macro, args):
+    """the registered instantiation must be an actual invocation: `macro!(<args text>` occurs in the file (whitespace-insensitive)"""
+    want = re.sub(r"\s+", "", f"{macro}!({args}")
+    if want not in re.sub(r"\s+", "", src).replace(macro + "!{", macro + "!("): fail(f"invocation `{macro}!({args} ..)` not found")
+
 def translate_body(ctx, spec, read_src):
     """-> (Lean definition text, callee record)"""
+    global SCALAR_TYPES, GENERIC_COLOURS, STRUCT_RENAME
+    saved = (SCALAR_TYPES, GENERIC_COLOURS, STRUCT_RENAME)
+    SCALAR_TYPES = SCALAR_TYPES | set(spec.get("scalars", ()))
+    GENERIC_COLOURS = set(spec.get("colours", ()))
+    STRUCT_RENAME = dict(spec.get("structs", {}))
+    try:
+        return translate_body_(ctx, spec, read_src)
+    finally:
+        SCALAR_TYPES, GENERIC_COLOURS, STRUCT_RENAME = saved
+
+def translate_body_(ctx, spec, read_src):
     src = read_src(spec["file"])
     params, ret, body = find_fn(src, spec["where"], spec["fn"])
+    if spec.get("macro_args"):
+        inv = spec.get("invocation")
+        if inv: check_invocation(read_src(inv[0]), inv[1], inv[2])
+        params, ret, body = (macro_expand(x, spec["macro_args"]) for x in (params, ret, body))
     self_ty = spec.get("self_ty")
     if self_ty is None and spec["where"]:
         m = re.search(r"\bfor\s+(\w+)", re.search(spec["where"], src).group(0))
@@ -1356,32 +2077,43 @@ def translate_body(ctx, spec, read_src):
         m = re.search(rx, read_src(f))
         if not m: fail(f"associated constant {k}: /{rx}/ not found in {f}")
         subst[k] = m.group(1)
+    holes = [(parse_expr(k), Val(lname(n), "T")) for k, n in (spec.get("holes") or {}).items()]
     lo = Lower(ctx, self_ty=self_ty, kmode=spec.get("k", "sci"), consts=module_consts(src), typeid=spec.get("typeid"),
-               wp="wp" if spec.get("wp") else None, subst=subst)
+               wp="wp" if spec.get("wp") else None, subst=subst, prims=spec.get("prims"), mask=spec.get("mask", "bool"), holes=holes,
+               scalars=spec.get("scalars", ()))
     env, binders, ptys = {}, [], []
     if spec.get("wp"): binders.append("(wp : V3 α)")
+    for _, hv in holes:
+        binders.append(f"({hv.code} : α)"); ptys.append("T")
     for p in split_top(params):
         p = p.strip()
         if not p: continue
         if p in ("self", "&self", "mut self"):
+            if "self" in (spec.get("skip_params") or ()): continue
             ty = ty_of(ctx, "Self", self_ty); n = "self"
         else:
             m = re.match(r"(?:mut\s+)?(\w+)\s*:\s*(.+)$", p, re.S)
             if not m: fail(f"parameter {p!r}")
-            n, ty = m.group(1), ty_of(ctx, m.group(2), self_ty)
+            n = m.group(1)
+            if n in (spec.get("skip_params") or ()): continue      # replaced by the holes of the registration
+            ty = (spec.get("ptypes") or {}).get(n) or ty_of(ctx, m.group(2), self_ty)
         env[n] = Val(lname(n) if n != "self" else "self_", ty)
         binders.append(f"({env[n].code} : {lean_ty(ty)})")
         ptys.append(ty)
-    rty = ty_of(ctx, ret, self_ty)
+    rty = spec.get("rty") or ty_of(ctx, ret, self_ty)
     v = lo.stmts(*(lambda b: (b[1], 0, b[2]))(parse_block(body)), env)
-    ok = v.ty == rty or (v.ty != "T" and rty != "T" and v.ty[0] == "V3" and rty[0] == "V3")
+    if v.ty == "P" and rty == "B": v = Val(lo.as_bool(v), "B")
+    ok = v.ty == rty or (v.ty not in ("T", "B", "P", "C") and rty not in ("T", "B", "P", "C") and v.ty[0] == "V3" and rty[0] == "V3")
     if not ok: fail(f"body has type {v.ty!r}, signature says {rty!r}")
     unused = [k for k in (spec.get("typeid") or {}) if k not in lo.typeids_seen]
     if unused: fail(f"registered TypeId comparison(s) {unused} do not occur in the body any more")
     inst = "[Scalar α]" + (" [Angle α]" if lo.uses_angle else "") + (" {β : Type} [Scalar β] [ViaF64 α β]" if lo.uses_viaf64 else "")
     where = spec.get("label") or spec["where"] or ""
     doc = f"/-- `{spec['file']}`: `fn {spec['fn']}`" + (f" of `{where}`" if where else "") + \
-          (f", branch {spec['typeid']}" if spec.get("typeid") else "") + (f", with {subst}" if subst else "") + " -/"
+          (f", branch {spec['typeid']}" if spec.get("typeid") else "") + (f", with {subst}" if subst else "") + \
+          (f", instantiated at `{spec['invocation'][1]}!({spec['invocation'][2]})` ({spec['invocation'][0]})" if spec.get("invocation") else "") + \
+          (f", `Self` = `{self_ty}`" if spec.get("self_ty") and spec["where"] and "trait" in (where or "") else "") + \
+          ("".join(f", `{k}` as the parameter `{n}`" for k, n in (spec.get("holes") or {}).items())) + " -/"
     text = f"{doc}\ndef {spec['name']} {{α : Type}} {inst} {' '.join(binders)} : {lean_ty(rty)} :=\n{indent(reflow(v.code), 2)}\n"
     rec = dict(lean="Gen.Body." + spec["name"], params=ptys, ret=rty, angle=lo.uses_angle, viaf64=lo.uses_viaf64,
                extra=["wp"] if spec.get("wp") else [])
@@ -1396,12 +2128,11 @@ def make_ctx(read_src):
     for k, d in INTRINSICS.items(): ctx.fns[k] = d
     return ctx
 
-def generate(read_src, tie_text):
-    """-> text of Gen/Bodies.lean.  Raises Untranslatable when a registered body is not recognised any more, or when a translated
-    body has no `tie_` theorem in PaletteProofs/Tie_Bodies.lean."""
-    ctx = make_ctx(read_src)
+def translate_all(ctx, bodies, read_src, tie_text, tie_file="Tie_Bodies.lean"):
+    """translate `bodies` in order (callees first), registering each under its Rust spellings; every body with a model function must
+    have its `tie_<name>` theorem in `tie_text` stating `Gen.Body.<name>` against that model function"""
     defs = []
-    for spec in BODIES:
+    for spec in bodies:
         try:
             text, rec = translate_body(ctx, spec, read_src)
         except Untranslatable as e:
@@ -1413,9 +2144,71 @@ def generate(read_src, tie_text):
         if spec["model"] is not None:
             m = re.search(r"\btheorem\s+tie_" + spec["name"] + r"\b(.*?):=", tie_text, re.S)
             if not m:
-                raise Untranslatable(f"body {spec['name']} is translated but lean/PaletteProofs/Tie_Bodies.lean has no theorem tie_{spec['name']}")
-            if not (re.search(r"Gen\.Body\." + spec["name"] + r"\b", m.group(1)) and spec["model"] in m.group(1)):
+                raise Untranslatable(f"body {spec['name']} is translated but lean/PaletteProofs/{tie_file} has no theorem tie_{spec['name']}")
+            if not (re.search(r"Gen\.Body\." + spec["name"] + r"\b", m.group(1)) and re.search(re.escape(spec["model"]) + r"(?![\w.])", m.group(1))):
                 raise Untranslatable(f"theorem tie_{spec['name']} does not state Gen.Body.{spec['name']} = {spec['model']}")
+    return defs
+
+def verify_decls(read_src, structs, enums):
+    """the registered layouts of the non-colour structs / enums are the ones the source declares (names, order, arity)"""
+    for n in structs:
+        info = STRUCTS2[n]
+        got = [f for f, _ in struct_fields(read_src(info["file"]), info.get("rust", n))]
+        want = [rf for rf, _, _ in info["fields"]]
+        if got != want: fail(f"struct {n} ({info['file']}): fields {got}, registered {want}")
+    for n in enums:
+        info = ENUMS[n]
+        got = enum_variants(read_src(info["file"]), n)
+        want = [(v, len(a)) for v, (_, a) in info["variants"].items()]
+        if got != want: fail(f"enum {n} ({info['file']}): variants {got}, registered {want}")
+
+def generate_family(read_src, tie_text, fam):
+    """-> text of Gen/Bodies<Fam>.lean for one of FAMILIES"""
+    F = FAMILIES[fam]
+    ctx = make_ctx(read_src)
+    ctx.type_files.update(F.get("colour_files", {}))
+    ctx.macro_structs = dict(F.get("macro_structs", {}))
+    for k, d in F.get("intrinsics", {}).items():
+        if isinstance(k, tuple): ctx.methods[k] = d
+        else: ctx.fns[k] = d
+    try:
+        verify_decls(read_src, F.get("structs", []), F.get("enums", []))
+    except Untranslatable as e:
+        raise Untranslatable(f"family {fam}: {e}")
+    for (file, fn, reading, digest) in F.get("pins", []):
+        # plumbing that is *read* (not translated): its text is pinned, so that a change of what the reading stands for stops the run
+        params, ret, body = find_fn(read_src(file), None, fn)
+        got = hashlib.sha256(re.sub(r"\s+", "", params + "->" + ret + body).encode()).hexdigest()[:16]
+        if got != digest:
+            raise Untranslatable(f"family {fam}: `{fn}` ({file}) is read as {reading}, registered for the text with digest {digest}; the text now has digest {got} "
+                                 f"(re-read the function, adapt the reading in Lower.zip_loop / BodyPrimExt.lean if needed, then update the digest)")
+    defs = translate_all(ctx, F["bodies"], read_src, tie_text, F["tie"])
+    tied = [s for s in F["bodies"] if s["model"]]
+    head = [f"/- GENERATED by tools/extract.py (tools/rust2lean.py, family `{fam}`) from the function bodies of palette/src -- do not edit",
+            "",
+            f"  {F['what']}",
+            "  Each definition is the translation of the *current* text of one Rust function / macro body / loop statement (named in its doc",
+            "  comment) into a Lean term over `class Scalar`; conventions in the header of tools/rust2lean.py, primitives in",
+            f"  PaletteModel/BodyPrim.lean and PaletteModel/BodyPrimExt.lean.  `PaletteProofs/{F['tie']}` proves for every `[Scalar α]`:",
+            ] + ["    " + ", ".join(f"{s['name']} = {s['model']}" for s in tied[i:i + 3]) for i in range(0, len(tied), 3)] + [
+            "  Helpers translated and unfolded inside those proofs (no model function of their own): "
+            + (", ".join(s["name"] for s in F["bodies"] if not s["model"]) or "none"),
+            "",
+            "  NOT translated in this family (still tied to the source by the correspondence run only):"] + \
+           ["    " + u for u in F["untranslated"]] + ["-/",
+            "import PaletteModel.BodyPrim", "import PaletteModel.BodyPrimExt"] + [f"import {m}" for m in F["imports"]] + [
+            "", "set_option linter.unusedVariables false   -- loop variables the Rust body does not read (`for (src, dst) in ..`) stay named", "",
+            "namespace Gen.Body", "",
+            f"/-- names of the translated bodies of family `{fam}` that have a `tie_` theorem, with the model function they are proved equal to -/",
+            f"def tied{fam.capitalize()} : List (String × String) := [\n" + ",\n".join("  " + ", ".join(f'("{s["name"]}", "{s["model"]}")' for s in tied[i:i + 3])
+                                                                  for i in range(0, len(tied), 3)) + "]", ""]
+    return "\n".join(head) + "\n" + "\n".join(defs) + "\nend Gen.Body\n"
+
+def generate(read_src, tie_text):
+    """-> text of Gen/Bodies.lean.  Raises Untranslatable when a registered body is not recognised any more, or when a translated
+    body has no `tie_` theorem in PaletteProofs/Tie_Bodies.lean."""
+    ctx = make_ctx(read_src)
+    defs = translate_all(ctx, BODIES, read_src, tie_text)
     tied = [s for s in BODIES if s["model"]]
     head = ["/- GENERATED by tools/extract.py (tools/rust2lean.py) from the function bodies of palette/src -- do not edit",
             "",
@@ -1442,7 +2235,14 @@ if __name__ == "__main__":
     def read_src(rel): return strip_comments(open(os.path.join(repo, "palette", "src", rel)).read())
     root = os.path.dirname(os.path.dirname(os.path.abspath(__file__)))
     tie = os.path.join(root, "lean", "PaletteProofs", "Tie_Bodies.lean")
+    fams = [a for a in sys.argv[1:] if a in FAMILIES]
     try:
+        if fams:
+            F = FAMILIES[fams[0]]
+            tie = os.path.join(root, "lean", "PaletteProofs", F["tie"])
+            sys.stdout.write(generate_family(read_src, open(tie).read() if os.path.exists(tie) and "--no-tie" not in sys.argv else
+                                             "".join(f"theorem tie_{s['name']} : Gen.Body.{s['name']} = {s['model']} := " for s in F["bodies"]), fams[0]))
+            sys.exit(0)
         sys.stdout.write(generate(read_src, open(tie).read() if os.path.exists(tie) and "--no-tie" not in sys.argv else
                                   "".join(f"theorem tie_{s['name']} : Gen.Body.{s['name']} = {s['model']} := " for s in BODIES)))
     except Untranslatable as e:
